@@ -558,3 +558,1524 @@ Proof.
       destruct (S right - length A')%nat as [|[|n]] eqn:En; [lia|lia|].
       cbn [firstn]. right. now left.
 Qed.
+
+(* ================================================================== histories ================== *)
+(* ------------------------------------------------------------------ region list: insertion, uniqueness *)
+
+Lemma area_bounds x px : aloc x = [px] -> as_ x = ps px /\ ae x = pe px.
+Proof. intros Ex. unfold as_, ae. rewrite Ex. split; reflexivity. Qed.
+
+(* converse of RS_app *)
+Lemma RS_app_intro a b : RS a -> RS b -> (forall x y, In x a -> In y b -> ae x <= as_ y) -> RS (a ++ b).
+Proof.
+  induction a as [|x a IH]; intros Ha Hb Hab; [exact Hb|].
+  destruct Ha as [Hx Ha]. cbn [app RS]. split.
+  - intros r' Hr. apply in_app_or in Hr. destruct Hr as [Hr|Hr]; [now apply Hx|].
+    apply Hab; [now left|exact Hr].
+  - apply IH; [exact Ha|exact Hb|]. intros u v Hu Hv. apply Hab; [now right|exact Hv].
+Qed.
+
+(* one step of the insertion loop on simple, non-overlapping areas *)
+Lemma region_step a x : simple_area a -> simple_area x -> overlap (aloc a) (aloc x) = false ->
+  (region_lt_region a x = true -> ae a <= as_ x) /\ (region_lt_region a x = false -> ae x <= as_ a).
+Proof.
+  intros (pa & Ea & Hpa) (px & Ex & Hpx) Ho.
+  destruct (area_bounds a pa Ea) as [Eas Eae]. destruct (area_bounds x px Ex) as [Exs Exe].
+  rewrite Eas, Eae, Exs, Exe. unfold region_lt_region. rewrite Ea, Ex in *. rewrite !ckey_single.
+  unfold pair_lt. cbn [fst snd].
+  pose proof (overlap_single pa px Hpa Hpx) as Hov.
+  pose proof (contains_single pa px) as Hc1. pose proof (contains_single px pa) as Hc2.
+  destruct (overlap [pa] [px]); [discriminate|].
+  destruct (contains [pa] [px]); destruct (contains [px] [pa]); cbn [andb negb]; split; intros H; lia.
+Qed.
+
+(* the insertion loop of add_region keeps the region list disjoint and ascending *)
+Lemma region_index_split a : simple_area a -> forall regs i idx,
+  (forall r, In r regs -> simple_area r) -> RS regs ->
+  region_index a regs i = Ok idx ->
+  exists A B, regs = A ++ B /\ idx = (i + length A)%nat /\
+              (forall x, In x A -> ae x <= as_ a) /\ (forall y, In y B -> ae a <= as_ y).
+Proof.
+  intros Ha. induction regs as [|x r IH]; intros i idx Hsim Hrs H.
+  - cbn in H. injection H as <-. exists [], []. cbn [length]. repeat split; try lia; intros ? [].
+  - cbn [region_index] in H. destruct (overlap (aloc a) (aloc x)) eqn:Ho; [discriminate|].
+    assert (Hx : simple_area x) by (apply Hsim; now left).
+    destruct (region_step a x Ha Hx Ho) as [Ht Hf]. destruct Hrs as [Hxr Hrs].
+    destruct (region_lt_region a x) eqn:Hlt.
+    + injection H as <-. exists [], (x :: r). cbn [length app]. repeat split; try lia; [intros ? []|].
+      specialize (Ht eq_refl). intros y [<-|Hy]; [exact Ht|].
+      specialize (Hxr y Hy). destruct Hx as (px & Ex & Hpx). destruct (area_bounds x px Ex). lia.
+    + destruct (IH (S i) idx) as (A & B & E & Ei & HA & HB); [intros r0 Hr0; apply Hsim; now right|exact Hrs|exact H|].
+      exists (x :: A), B. cbn [length app]. rewrite E. repeat split; [lia| |exact HB].
+      intros y [<-|Hy]; [now apply Hf|now apply HA].
+Qed.
+
+Lemma region_index_RS a regs idx : simple_area a -> (forall r, In r regs -> simple_area r) -> RS regs ->
+  region_index a regs 0 = Ok idx -> RS (insert_at idx a regs).
+Proof.
+  intros Ha Hsim Hrs H.
+  destruct (region_index_split a Ha regs 0%nat idx Hsim Hrs H) as (A & B & E & Ei & HA & HB).
+  cbn [Nat.add] in Ei. subst regs idx. unfold insert_at. rewrite firstn_length_app, skipn_length_app.
+  destruct (RS_app A B Hrs) as (RA & RB & HAB).
+  apply RS_app_intro; [exact RA|split; [exact HB|exact RB]|].
+  intros x y Hx [<-|Hy]; [now apply HA|now apply HAB].
+Qed.
+
+Lemma contains_two_absurd r1 r2 g : simple_area r1 -> simple_area r2 -> simple_gene g = true ->
+  ae r1 <= as_ r2 -> contains (aloc r1) (gloc g) = true -> contains (aloc r2) (gloc g) = true -> False.
+Proof.
+  intros (p1 & E1 & Hp1) (p2 & E2 & Hp2) Hg Hle C1 C2.
+  destruct (simple_gene_inv g Hg) as (pg & Eg & Hpg & _ & _).
+  destruct (area_bounds r1 p1 E1) as [_ Ee]. destruct (area_bounds r2 p2 E2) as [Es _].
+  rewrite E1, Eg in C1. rewrite E2, Eg in C2. apply contains_single in C1. apply contains_single in C2. lia.
+Qed.
+
+(* at most one region of a disjoint ascending list contains a non-empty single-part gene *)
+Lemma RS_contains_unique regs g : RS regs -> (forall r, In r regs -> simple_area r) -> simple_gene g = true ->
+  forall l1 r1 l2 r2 m1 m2, regs = l1 ++ r1 :: m1 -> regs = l2 ++ r2 :: m2 ->
+  contains (aloc r1) (gloc g) = true -> contains (aloc r2) (gloc g) = true -> l1 = l2 /\ r1 = r2.
+Proof.
+  intros Hrs Hsim Hg l1. revert regs Hrs Hsim.
+  induction l1 as [|x l1 IH]; intros regs Hrs Hsim r1 l2 r2 m1 m2 E1 E2 C1 C2.
+  - destruct l2 as [|y l2].
+    + rewrite E1 in E2. cbn [app] in E2. injection E2 as -> _. now split.
+    + exfalso. rewrite E1 in E2. cbn [app] in E2. injection E2 as <- Em.
+      cbn [app] in E1. subst regs. destruct Hrs as [Hx _].
+      assert (Hin : In r2 m1) by (rewrite Em; apply in_or_app; right; now left).
+      apply (contains_two_absurd r1 r2 g); auto.
+      * apply Hsim. now left.
+      * apply Hsim. right. exact Hin.
+  - destruct l2 as [|y l2].
+    + exfalso. rewrite E2 in E1. cbn [app] in E1. injection E1 as -> Em.
+      cbn [app] in E2. subst regs. destruct Hrs as [Hx _].
+      assert (Hin : In r1 m2) by (rewrite Em; apply in_or_app; right; now left).
+      apply (contains_two_absurd x r1 g); auto.
+      * apply Hsim. now left.
+      * apply Hsim. right. exact Hin.
+    + assert (Exy : x = y) by (rewrite E1 in E2; cbn [app] in E2; now injection E2).
+      subst y. destruct regs as [|z regs']; [destruct l1; discriminate|].
+      cbn [app] in E1, E2. injection E1 as -> E1. injection E2 as E2.
+      destruct Hrs as [_ Hrs].
+      destruct (IH regs' Hrs (fun r Hr => Hsim r (or_intror Hr)) r1 l2 r2 m1 m2 E1 E2 C1 C2) as [-> ->].
+      now split.
+Qed.
+
+Lemma RS_contains_same regs g r1 r2 : RS regs -> (forall r, In r regs -> simple_area r) -> simple_gene g = true ->
+  In r1 regs -> In r2 regs -> contains (aloc r1) (gloc g) = true -> contains (aloc r2) (gloc g) = true -> r1 = r2.
+Proof.
+  intros Hrs Hsim Hg H1 H2 C1 C2.
+  apply in_split in H1. destruct H1 as (l1 & m1 & E1).
+  apply in_split in H2. destruct H2 as (l2 & m2 & E2).
+  exact (proj2 (RS_contains_unique regs g Hrs Hsim Hg l1 r1 l2 r2 m1 m2 E1 E2 C1 C2)).
+Qed.
+
+
+(* ------------------------------------------------------------------ tables of areas: definitions *)
+(* the fields of an area that never change after it entered the record *)
+Definition static (a : area) := (aid a, akind a, aloc a, acore a, aprod a, achild a).
+(* the test of Protocluster.add_cds *)
+Definition defcond (a : area) (g : gene) : bool :=
+  (akind a =? K_PROTO) && contains (acore a) (gloc g) && smem (aprod a) (gcore g).
+
+(* a' is a with more members / definition genes, every new one being a gene of G that a's location contains *)
+Definition ext (G : list gene) (a a' : area) : Prop :=
+  static a = static a' /\ incl (amem a) (amem a') /\ incl (adef a) (adef a') /\
+  (forall x, In x (amem a') -> In x (amem a) \/
+     exists g, In g G /\ gid g = x /\ contains (aloc a) (gloc g) = true) /\
+  (forall x, In x (adef a') -> In x (adef a) \/
+     exists g, In g G /\ gid g = x /\ contains (aloc a) (gloc g) = true /\ defcond a g = true).
+Definition R (G : list gene) : list area -> list area -> Prop := Forall2 (ext G).
+
+(* cds.region as the harness reads it *)
+Definition link_of (lk : list (Z * Z)) (x : Z) : option Z :=
+  match find (fun p => fst p =? x) lk with Some (_, r) => Some r | None => None end.
+
+Definition mem_sound (G : list gene) (a : area) : Prop :=
+  (forall x, In x (amem a) -> exists g, In g G /\ gid g = x /\ contains (aloc a) (gloc g) = true) /\
+  (forall x, In x (adef a) -> exists g, In g G /\ gid g = x /\ contains (aloc a) (gloc g) = true /\ defcond a g = true).
+Definition mem_complete (G : list gene) (a : area) : Prop :=
+  forall g, In g G -> contains (aloc a) (gloc g) = true ->
+    In (gid g) (amem a) /\ (defcond a g = true -> In (gid g) (adef a)).
+
+(* ------------------------------------------------------------------ tables of areas: extension relation, add_cds *)
+(* ---------- helpers ---------- *)
+Lemma static_inv a b : static a = static b ->
+  aid a = aid b /\ akind a = akind b /\ aloc a = aloc b /\ acore a = acore b /\
+  aprod a = aprod b /\ achild a = achild b.
+Proof. unfold static. intros H. injection H. intros. repeat split; assumption. Qed.
+
+Lemma defcond_static a b g : static a = static b -> defcond a g = defcond b g.
+Proof.
+  intros H. apply static_inv in H. destruct H as (_ & Hk & _ & Hc & Hp & _).
+  unfold defcond. rewrite Hk, Hc, Hp. reflexivity.
+Qed.
+
+Lemma zmem_In x l : zmem x l = true <-> In x l.
+Proof.
+  unfold zmem. rewrite existsb_exists. split.
+  - intros (y & Hy & E). apply Z.eqb_eq in E. subst. exact Hy.
+  - intros H. exists x. split; [exact H|apply Z.eqb_refl].
+Qed.
+
+Lemma add_once_In x y l : In x (add_once y l) <-> In x l \/ x = y.
+Proof.
+  unfold add_once. destruct (zmem y l) eqn:E.
+  - apply zmem_In in E. split; [intros H; now left|]. intros [H|H]; [exact H|subst; exact E].
+  - rewrite in_app_iff. cbn [In]. split.
+    + intros [H|[H|[]]]; [now left|right; now symmetry].
+    + intros [H|H]; [now left|right; left; now symmetry].
+Qed.
+
+Lemma add_once_incl y l : incl l (add_once y l).
+Proof. intros x Hx. apply add_once_In. now left. Qed.
+
+Lemma nodup_aid_inj tbl a b : NoDup (map aid tbl) -> In a tbl -> In b tbl -> aid a = aid b -> a = b.
+Proof.
+  induction tbl as [|x tbl IH]; intros ND Ha Hb E; [destruct Ha|].
+  cbn [map] in ND. inversion ND as [|? ? Hn ND']; subst.
+  destruct Ha as [Ha|Ha]; destruct Hb as [Hb|Hb].
+  - congruence.
+  - subst a. exfalso. apply Hn. rewrite E. now apply in_map.
+  - subst b. exfalso. apply Hn. rewrite <- E. now apply in_map.
+  - now apply IH.
+Qed.
+
+Lemma Forall2_map_r {A} (P : A -> A -> Prop) f l :
+  (forall x, In x l -> P x (f x)) -> Forall2 P l (map f l).
+Proof.
+  induction l as [|x l IH]; intros H; cbn [map]; constructor.
+  - apply H. now left.
+  - apply IH. intros y Hy. apply H. now right.
+Qed.
+
+Lemma fold_err {A B} (f : res A -> B -> res A) :
+  (forall k c, f (Err k) c = Err k) -> forall cs k, fold_left f cs (Err k) = Err k.
+Proof.
+  intros Hf. induction cs as [|c cs IH]; intros k; cbn [fold_left]; [reflexivity|].
+  rewrite Hf. apply IH.
+Qed.
+
+(* ---------- the stub lemmas ---------- *)
+Lemma ext_refl G a : ext G a a.
+Proof.
+  unfold ext. split; [reflexivity|]. split; [apply incl_refl|]. split; [apply incl_refl|].
+  split; intros x Hx; now left.
+Qed.
+
+Lemma ext_trans G a b c : ext G a b -> ext G b c -> ext G a c.
+Proof.
+  intros (S1 & M1 & D1 & GM1 & GD1) (S2 & M2 & D2 & GM2 & GD2).
+  destruct (static_inv _ _ S1) as (_ & _ & Hl & _).
+  split; [congruence|]. split; [eapply incl_tran; eauto|]. split; [eapply incl_tran; eauto|]. split.
+  - intros x Hx. destruct (GM2 x Hx) as [Hb|(g & Hg & Hi & Hc)].
+    + apply GM1; exact Hb.
+    + right. exists g. rewrite Hl. auto.
+  - intros x Hx. destruct (GD2 x Hx) as [Hb|(g & Hg & Hi & Hc & Hd)].
+    + apply GD1; exact Hb.
+    + right. exists g. rewrite Hl, (defcond_static a b g S1). auto.
+Qed.
+
+Lemma ext_mono G G' a b : incl G G' -> ext G a b -> ext G' a b.
+Proof.
+  intros HG (S1 & M1 & D1 & GM1 & GD1).
+  split; [exact S1|]. split; [exact M1|]. split; [exact D1|]. split.
+  - intros x Hx. destruct (GM1 x Hx) as [Hb|(g & Hg & Hi & Hc)]; [now left|].
+    right. exists g. auto.
+  - intros x Hx. destruct (GD1 x Hx) as [Hb|(g & Hg & Hi & Hc & Hd)]; [now left|].
+    right. exists g. auto.
+Qed.
+
+Lemma R_refl G t : R G t t.
+Proof. unfold R. induction t; constructor; [apply ext_refl|assumption]. Qed.
+
+Lemma R_trans G t1 t2 t3 : R G t1 t2 -> R G t2 t3 -> R G t1 t3.
+Proof.
+  unfold R. intros H. revert t3. induction H as [|x y l l' Hxy Hl IH]; intros t3 H2.
+  - inversion H2. constructor.
+  - inversion H2 as [|? z ? l'' Hyz Hl']; subst. constructor.
+    + eapply ext_trans; eauto.
+    + apply IH. exact Hl'.
+Qed.
+
+Lemma R_mono G G' t t' : incl G G' -> R G t t' -> R G' t t'.
+Proof.
+  unfold R. intros HG H. induction H; constructor; [eapply ext_mono; eauto|assumption].
+Qed.
+
+Lemma R_static G t t' : R G t t' -> map static t = map static t'.
+Proof.
+  unfold R. intros H. induction H as [|x y l l' Hxy Hl IH]; cbn [map]; [reflexivity|].
+  destruct Hxy as [Hs _]. rewrite Hs, IH. reflexivity.
+Qed.
+
+Lemma R_aid G t t' : R G t t' -> map aid t = map aid t'.
+Proof.
+  unfold R. intros H. induction H as [|x y l l' Hxy Hl IH]; cbn [map]; [reflexivity|].
+  destruct Hxy as [Hs _]. apply static_inv in Hs. destruct Hs as [Hs _]. rewrite Hs, IH. reflexivity.
+Qed.
+
+Lemma R_find G t t' i a : R G t t' -> find_area t i = Some a ->
+  exists a', find_area t' i = Some a' /\ ext G a a'.
+Proof.
+  unfold R, find_area. intros H. induction H as [|x y l l' Hxy Hl IH]; cbn [find]; intros F; [discriminate|].
+  assert (E : aid x = aid y) by (destruct Hxy as [Hs _]; apply static_inv in Hs; tauto).
+  rewrite <- E. destruct (aid x =? i).
+  - injection F as <-. exists y. auto.
+  - apply IH. exact F.
+Qed.
+
+Lemma R_find_none G t t' i : R G t t' -> find_area t i = None -> find_area t' i = None.
+Proof.
+  unfold R, find_area. intros H. induction H as [|x y l l' Hxy Hl IH]; cbn [find]; intros F; [reflexivity|].
+  assert (E : aid x = aid y) by (destruct Hxy as [Hs _]; apply static_inv in Hs; tauto).
+  rewrite <- E. destruct (aid x =? i); [discriminate|]. apply IH. exact F.
+Qed.
+
+Lemma R_in G t t' a' : R G t t' -> In a' t' -> exists a, In a t /\ ext G a a'.
+Proof.
+  unfold R. intros H. induction H as [|x y l l' Hxy Hl IH]; intros Hin; [destruct Hin|].
+  destruct Hin as [<-|Hin].
+  - exists x. split; [now left|exact Hxy].
+  - destruct (IH Hin) as (a & Ha & Hx). exists a. split; [now right|exact Hx].
+Qed.
+
+Lemma R_in_l G t t' a : R G t t' -> In a t -> exists a', In a' t' /\ ext G a a'.
+Proof.
+  unfold R. intros H. induction H as [|x y l l' Hxy Hl IH]; intros Hin; [destruct Hin|].
+  destruct Hin as [<-|Hin].
+  - exists y. split; [now left|exact Hxy].
+  - destruct (IH Hin) as (a' & Ha & Hx). exists a'. split; [now right|exact Hx].
+Qed.
+
+Lemma find_area_in tbl i a : find_area tbl i = Some a -> In a tbl /\ aid a = i.
+Proof.
+  unfold find_area. intros H. apply find_some in H. destruct H as [Hin E].
+  apply Z.eqb_eq in E. auto.
+Qed.
+
+Lemma find_area_nodup tbl a : NoDup (map aid tbl) -> In a tbl -> find_area tbl (aid a) = Some a.
+Proof.
+  unfold find_area. induction tbl as [|x tbl IH]; intros ND Hin; [destruct Hin|].
+  cbn [map] in ND. inversion ND as [|? ? Hn ND']; subst. cbn [find].
+  destruct Hin as [->|Hin]; [rewrite Z.eqb_refl; reflexivity|].
+  destruct (aid x =? aid a) eqn:E.
+  - apply Z.eqb_eq in E. exfalso. apply Hn. rewrite E. now apply in_map.
+  - now apply IH.
+Qed.
+
+(* ---------- update_area ---------- *)
+Lemma R_nodup G t t' : R G t t' -> NoDup (map aid t) -> NoDup (map aid t').
+Proof. intros H ND. rewrite <- (R_aid G t t' H). exact ND. Qed.
+
+Lemma R_update G tbl i a a1 : NoDup (map aid tbl) -> find_area tbl i = Some a ->
+  aid a1 = aid a -> ext G a a1 -> R G tbl (update_area tbl a1).
+Proof.
+  intros ND F E X. apply find_area_in in F. destruct F as [Hin Hi].
+  unfold R, update_area. apply Forall2_map_r. intros x Hx.
+  destruct (aid x =? aid a1) eqn:Eq.
+  - apply Z.eqb_eq in Eq. assert (x = a) by (eapply nodup_aid_inj; eauto; congruence).
+    subst x. exact X.
+  - apply ext_refl.
+Qed.
+
+Lemma find_update tbl a1 a0 : find_area tbl (aid a1) = Some a0 ->
+  find_area (update_area tbl a1) (aid a1) = Some a1.
+Proof.
+  unfold find_area, update_area. induction tbl as [|x tbl IH]; cbn [find map]; [discriminate|].
+  destruct (aid x =? aid a1) eqn:E.
+  - intros _. rewrite Z.eqb_refl. reflexivity.
+  - rewrite E. exact IH.
+Qed.
+
+(* ---------- add_cds ---------- *)
+Lemma add_cds_unfold depth tbl i g :
+  add_cds depth tbl i g =
+  match find_area tbl i with
+  | None => Err E_Key
+  | Some a =>
+    if negb (contains (aloc a) (gloc g)) then Err E_Value else
+    let a1 := set_mem a (add_once (gid g) (amem a)) in
+    let tbl1 := update_area tbl a1 in
+    do tbl2 <-
+      match depth with
+      | O => Ok tbl1
+      | S d =>
+        fold_left (fun acc c =>
+                     do t <- acc;
+                     match find_area t c with
+                     | Some ch => if contains (aloc ch) (gloc g) then add_cds d t c g else Ok t
+                     | None => Err E_Key
+                     end) (achild a) (Ok tbl1)
+      end;
+    if akind a =? K_PROTO then
+      if negb (contains (acore a) (gloc g)) then Ok tbl2
+      else if smem (aprod a) (gcore g) then
+        match find_area tbl2 i with
+        | Some a2 => Ok (update_area tbl2 (set_def a2 (add_once (gid g) (adef a2))))
+        | None => Err E_Key
+        end
+      else Ok tbl2
+    else Ok tbl2
+  end.
+Proof. destruct depth; reflexivity. Qed.
+
+Lemma children_spec G g d :
+  (forall tbl i tbl', NoDup (map aid tbl) -> add_cds d tbl i g = Ok tbl' -> R G tbl tbl') ->
+  forall cs t0 t2, NoDup (map aid t0) ->
+  fold_left (fun acc c =>
+               do t <- acc;
+               match find_area t c with
+               | Some ch => if contains (aloc ch) (gloc g) then add_cds d t c g else Ok t
+               | None => Err E_Key
+               end) cs (Ok t0) = Ok t2 ->
+  R G t0 t2.
+Proof.
+  intros IHd. induction cs as [|c cs IH]; intros t0 t2 ND H; cbn [fold_left] in H.
+  - injection H as <-. apply R_refl.
+  - cbn [bind] in H.
+    destruct (find_area t0 c) as [ch|].
+    + destruct (contains (aloc ch) (gloc g)).
+      * destruct (add_cds d t0 c g) as [t1|k] eqn:E1.
+        -- assert (R1 : R G t0 t1) by (eapply IHd; eauto).
+           eapply R_trans; [exact R1|]. apply IH; [eapply R_nodup; eauto|exact H].
+        -- rewrite fold_err in H; [discriminate|]. intros; reflexivity.
+      * apply IH; assumption.
+    + rewrite fold_err in H; [discriminate|]. intros; reflexivity.
+Qed.
+
+Lemma step_spec G g tbl i tbl' (mid : res (list area)) a :
+  In g G -> NoDup (map aid tbl) -> find_area tbl i = Some a -> contains (aloc a) (gloc g) = true ->
+  (forall tbl2, mid = Ok tbl2 ->
+     R G (update_area tbl (set_mem a (add_once (gid g) (amem a)))) tbl2) ->
+  (do tbl2 <- mid;
+   if akind a =? K_PROTO then
+     if negb (contains (acore a) (gloc g)) then Ok tbl2
+     else if smem (aprod a) (gcore g) then
+       match find_area tbl2 i with
+       | Some a2 => Ok (update_area tbl2 (set_def a2 (add_once (gid g) (adef a2))))
+       | None => Err E_Key
+       end
+     else Ok tbl2
+   else Ok tbl2) = Ok tbl' ->
+  R G tbl tbl' /\
+  exists a a', find_area tbl i = Some a /\ find_area tbl' i = Some a' /\
+     contains (aloc a) (gloc g) = true /\ In (gid g) (amem a') /\
+     (defcond a g = true -> In (gid g) (adef a')).
+Proof.
+  intros Hg ND F C Hmid H.
+  set (a1 := set_mem a (add_once (gid g) (amem a))) in *.
+  set (tbl1 := update_area tbl a1) in *.
+  assert (X1 : ext G a a1).
+  { split; [reflexivity|]. split; [apply add_once_incl|]. split; [apply incl_refl|]. split.
+    - intros x Hx. unfold a1, set_mem in Hx. cbn [amem] in Hx. apply add_once_In in Hx.
+      destruct Hx as [Hx| ->]; [now left|]. right. exists g. auto.
+    - intros x Hx. now left. }
+  assert (R1 : R G tbl tbl1) by (eapply R_update; eauto).
+  assert (Hi : aid a = i) by (apply find_area_in in F; tauto).
+  assert (F1 : find_area tbl1 i = Some a1).
+  { rewrite <- Hi in F |- *. exact (find_update tbl a1 a F). }
+  assert (ND1 : NoDup (map aid tbl1)) by (eapply R_nodup; eauto).
+  destruct mid as [tbl2|k]; cbn [bind] in H; [|discriminate].
+  specialize (Hmid tbl2 eq_refl).
+  destruct (R_find _ _ _ _ _ Hmid F1) as (a2 & F2 & X2).
+  assert (R2 : R G tbl tbl2) by (eapply R_trans; eauto).
+  assert (ND2 : NoDup (map aid tbl2)) by (eapply R_nodup; eauto).
+  assert (X02 : ext G a a2) by (eapply ext_trans; eauto).
+  assert (M2 : In (gid g) (amem a2)).
+  { destruct X2 as (_ & M & _). apply M. unfold a1, set_mem. cbn [amem]. apply add_once_In. now right. }
+  assert (Base : defcond a g = false -> tbl' = tbl2 ->
+    R G tbl tbl' /\
+    exists a a', find_area tbl i = Some a /\ find_area tbl' i = Some a' /\
+     contains (aloc a) (gloc g) = true /\ In (gid g) (amem a') /\
+     (defcond a g = true -> In (gid g) (adef a'))).
+  { intros Hd ->. split; [exact R2|]. exists a, a2. repeat split; auto.
+    intros Hd'. rewrite Hd in Hd'. discriminate. }
+  destruct (akind a =? K_PROTO) eqn:Ek.
+  - destruct (contains (acore a) (gloc g)) eqn:Ec; cbn [negb] in H.
+    + destruct (smem (aprod a) (gcore g)) eqn:Es.
+      * rewrite F2 in H. injection H as <-.
+        set (a3 := set_def a2 (add_once (gid g) (adef a2))).
+        assert (S02 : static a = static a2) by (destruct X02; assumption).
+        assert (Hd : defcond a g = true) by (unfold defcond; rewrite Ek, Ec, Es; reflexivity).
+        assert (X3 : ext G a2 a3).
+        { split; [reflexivity|]. split; [apply incl_refl|]. split; [apply add_once_incl|]. split.
+          - intros x Hx. now left.
+          - intros x Hx. unfold a3, set_def in Hx. cbn [adef] in Hx. apply add_once_In in Hx.
+            destruct Hx as [Hx| ->]; [now left|]. right. exists g.
+            rewrite <- (defcond_static a a2 g S02).
+            destruct (static_inv _ _ S02) as (_ & _ & Hl & _). rewrite <- Hl. auto. }
+        assert (Hi2 : aid a2 = i) by (apply find_area_in in F2; tauto).
+        assert (R3 : R G tbl2 (update_area tbl2 a3)) by (eapply R_update; eauto).
+        split; [eapply R_trans; eauto|].
+        exists a, a3. split; [exact F|]. split.
+        { rewrite <- Hi2 in F2 |- *. exact (find_update tbl2 a3 a2 F2). }
+        split; [exact C|]. split; [exact M2|].
+        intros _. unfold a3, set_def. cbn [adef]. apply add_once_In. now right.
+      * apply Base; [|now injection H]. unfold defcond. rewrite Ek, Ec, Es. reflexivity.
+    + apply Base; [|now injection H]. unfold defcond. rewrite Ek, Ec. reflexivity.
+  - apply Base; [|now injection H]. unfold defcond. rewrite Ek. reflexivity.
+Qed.
+
+(* CDSCollection.add_cds / Protocluster.add_cds: the table only grows by the gene, where it is contained,
+   and the addressed collection certainly receives it *)
+Lemma add_cds_spec G g : In g G -> forall depth tbl i tbl', NoDup (map aid tbl) ->
+  add_cds depth tbl i g = Ok tbl' ->
+  R G tbl tbl' /\
+  exists a a', find_area tbl i = Some a /\ find_area tbl' i = Some a' /\
+     contains (aloc a) (gloc g) = true /\ In (gid g) (amem a') /\
+     (defcond a g = true -> In (gid g) (adef a')).
+Proof.
+  intros Hg. induction depth as [|d IHd]; intros tbl i tbl' ND H; rewrite add_cds_unfold in H;
+    destruct (find_area tbl i) as [a|] eqn:F; try discriminate;
+    destruct (contains (aloc a) (gloc g)) eqn:C; cbn [negb] in H; try discriminate;
+    cbv zeta in H.
+  - rewrite <- F. eapply step_spec; try eassumption; try (rewrite F; eassumption).
+    intros tbl2 E. injection E as <-. apply R_refl.
+  - rewrite <- F. eapply step_spec; try eassumption; try (rewrite F; eassumption).
+    intros tbl2 E. eapply children_spec; [| |exact E].
+    + intros t j t' NDt Ht. exact (proj1 (IHd t j t' NDt Ht)).
+    + eapply R_nodup; [|exact ND]. apply (R_update G tbl i a); [exact ND|exact F|reflexivity|].
+      split; [reflexivity|]. split; [apply add_once_incl|]. split; [apply incl_refl|]. split.
+      * intros x Hx. cbn [amem set_mem] in Hx. apply add_once_In in Hx.
+        destruct Hx as [Hx| ->]; [now left|]. right. exists g. auto.
+      * intros x Hx. now left.
+Qed.
+
+(* ------------------------------------------------------------------ the folds of _link_cds_to_parent and of the area insertions *)
+(* the three folds of _link_cds_to_parent / add_<area>; the bodies are copied from Model.v so that they are
+   convertible with the anonymous functions used there *)
+Definition scan_step (g : gene) := fun (acc : res (list area)) (i : Z) =>
+                       do t <- acc;
+                       match find_area t i with
+                       | Some a => if contains (aloc a) (gloc g) then add_cds DEPTH t i g else Ok t
+                       | None => Err E_Key
+                       end.
+Definition win_step (g : gene) := fun (acc : res (list area * list (Z * Z))) (r : area) =>
+                       do tl <- acc;
+                       let '(t, lk) := tl in
+                       if contains (aloc r) (gloc g)
+                       then do t' <- add_cds DEPTH t (aid r) g; Ok (t', set_link lk (gid g) (aid r))
+                       else Ok (t, lk).
+Definition pair_step (a : area) (set_region : bool) := fun (acc : res (list area * list (Z * Z))) (g : gene) =>
+                       do tl <- acc;
+                       let '(t, lk) := tl in
+                       do t' <- add_cds DEPTH t (aid a) g;
+                       Ok (t', if set_region then set_link lk (gid g) (aid a) else lk).
+
+(* ---------- helpers ---------- *)
+Lemma static_defcond a b g : static a = static b -> defcond a g = defcond b g.
+Proof. unfold static, defcond. intro H. injection H. intros. congruence. Qed.
+
+Lemma static_aloc a b : static a = static b -> aloc a = aloc b.
+Proof. unfold static. intro H. injection H. intros. congruence. Qed.
+
+Lemma scan_err g ids k : fold_left (scan_step g) ids (Err k) = Err k.
+Proof. induction ids as [|x l IH]; cbn [fold_left]; auto. Qed.
+
+Lemma win_err g w k : fold_left (win_step g) w (Err k) = Err k.
+Proof. induction w as [|x l IH]; cbn [fold_left]; auto. Qed.
+
+Lemma pair_err a sr l k : fold_left (pair_step a sr) l (Err k) = Err k.
+Proof. induction l as [|x l IH]; cbn [fold_left]; auto. Qed.
+
+Lemma ex_or_all {A} (f : A -> bool) l :
+  (exists r, In r l /\ f r = true) \/ (forall r, In r l -> f r = false).
+Proof.
+  induction l as [|x l IH].
+  - right; intros r [].
+  - destruct (f x) eqn:E.
+    + left; exists x; split; [left; auto|auto].
+    + destruct IH as [(r & Hr & Fr)|H].
+      * left; exists r; split; [right|]; auto.
+      * right; intros r [<-|Hr]; auto.
+Qed.
+
+Lemma find_filter_ne (lk : list (Z * Z)) g x : x <> g ->
+  find (fun p : Z * Z => fst p =? x) (filter (fun y : Z * Z => negb (fst y =? g)) lk)
+  = find (fun p : Z * Z => fst p =? x) lk.
+Proof.
+  intro N. induction lk as [|[u v] lk IH]; cbn [filter find fst]; auto.
+  destruct (u =? g) eqn:E1; cbn [negb].
+  - destruct (u =? x) eqn:E2; [lia|]. exact IH.
+  - cbn [find fst]. destruct (u =? x); auto.
+Qed.
+
+(* ---------- the stub lemmas ---------- *)
+Lemma link_of_set lk g r x : link_of (set_link lk g r) x = if x =? g then Some r else link_of lk x.
+Proof.
+  unfold link_of, set_link. cbn [find fst]. rewrite (Z.eqb_sym g x).
+  destruct (x =? g) eqn:E; auto.
+  rewrite find_filter_ne by lia. reflexivity.
+Qed.
+
+Lemma scan_fold_spec G g : In g G -> forall ids t1 t2, NoDup (map aid t1) ->
+  fold_left (scan_step g) ids (Ok t1) = Ok t2 ->
+  R G t1 t2 /\
+  forall i a, In i ids -> find_area t1 i = Some a -> contains (aloc a) (gloc g) = true ->
+    exists a2, find_area t2 i = Some a2 /\ In (gid g) (amem a2) /\ (defcond a g = true -> In (gid g) (adef a2)).
+Proof.
+  intros Hg ids. induction ids as [|x l IH]; intros t1 t2 ND F.
+  - cbn in F. injection F as <-. split; [apply R_refl|]. intros i a [].
+  - cbn [fold_left] in F.
+    destruct (scan_step g (Ok t1) x) as [tm|k] eqn:E; [|rewrite scan_err in F; discriminate].
+    assert (Rm : R G t1 tm /\
+                 (forall a, find_area t1 x = Some a -> contains (aloc a) (gloc g) = true ->
+                    exists a', find_area tm x = Some a' /\ In (gid g) (amem a') /\
+                               (defcond a g = true -> In (gid g) (adef a')))).
+    { unfold scan_step in E. cbn [bind] in E.
+      destruct (find_area t1 x) as [a0|] eqn:Fx; [|discriminate].
+      destruct (contains (aloc a0) (gloc g)) eqn:C.
+      - destruct (add_cds_spec G g Hg _ _ _ _ ND E) as (Rr & a & a' & F1 & F2 & C1 & M & D).
+        split; auto. intros b Hb _. rewrite Fx in F1. injection Hb as <-. injection F1 as <-.
+        exists a'. auto.
+      - injection E as <-. split; [apply R_refl|]. intros b Hb Cb. injection Hb as <-. congruence. }
+    destruct Rm as [Rm Hm].
+    assert (NDm : NoDup (map aid tm)) by (rewrite <- (R_aid _ _ _ Rm); exact ND).
+    destruct (IH tm t2 NDm F) as [R2 H2].
+    split; [eapply R_trans; eauto|].
+    intros i a [->|Hi] Fa Ca.
+    + destruct (Hm a Fa Ca) as (a' & Fa' & Ma & Da).
+      destruct (R_find _ _ _ _ _ R2 Fa') as (a2 & Fa2 & E2).
+      exists a2. destruct E2 as (S2 & I1 & I2 & _). split; auto.
+    + destruct (R_find _ _ _ _ _ Rm Fa) as (a' & Fa' & E1).
+      destruct E1 as (S1 & _).
+      assert (Ca' : contains (aloc a') (gloc g) = true)
+        by (rewrite <- (static_aloc _ _ S1); exact Ca).
+      destruct (H2 i a' Hi Fa' Ca') as (a2 & Fa2 & M2 & D2).
+      exists a2. split; auto. split; auto.
+      intro D. apply D2. rewrite <- (static_defcond _ _ g S1). exact D.
+Qed.
+
+Lemma win_fold_spec G g : In g G -> forall w t lk t' lk', NoDup (map aid t) ->
+  fold_left (win_step g) w (Ok (t, lk)) = Ok (t', lk') ->
+  R G t t' /\
+  (forall r, In r w -> contains (aloc r) (gloc g) = true ->
+     exists a2, find_area t' (aid r) = Some a2 /\ In (gid g) (amem a2)) /\
+  (forall x, x <> gid g -> link_of lk' x = link_of lk x) /\
+  ((forall r, In r w -> contains (aloc r) (gloc g) = false) -> lk' = lk) /\
+  (forall i0, (exists r, In r w /\ contains (aloc r) (gloc g) = true) ->
+              (forall r, In r w -> contains (aloc r) (gloc g) = true -> aid r = i0) ->
+              link_of lk' (gid g) = Some i0).
+Proof.
+  intros Hg w. induction w as [|x l IH]; intros t lk t' lk' ND F.
+  - cbn in F. injection F as <- <-. split; [apply R_refl|]. split; [intros r []|].
+    split; [auto|]. split; [auto|]. intros i0 (r & [] & _).
+  - cbn [fold_left] in F.
+    destruct (win_step g (Ok (t, lk)) x) as [[tm lkm]|k] eqn:E; [|rewrite win_err in F; discriminate].
+    unfold win_step in E. cbn [bind] in E.
+    destruct (contains (aloc x) (gloc g)) eqn:C.
+    + destruct (add_cds DEPTH t (aid x) g) as [t1|k] eqn:A; cbn [bind] in E; [|discriminate].
+      injection E as <- <-.
+      destruct (add_cds_spec G g Hg _ _ _ _ ND A) as (Rm & a & a' & F1 & F2 & C1 & M & D).
+      assert (NDm : NoDup (map aid t1)) by (rewrite <- (R_aid _ _ _ Rm); exact ND).
+      destruct (IH _ _ _ _ NDm F) as (R2 & H2 & H3 & H4 & H5).
+      split; [eapply R_trans; eauto|].
+      split.
+      { intros r [<-|Hr] Cr.
+        - destruct (R_find _ _ _ _ _ R2 F2) as (a2 & Fa2 & E2). exists a2. split; auto.
+          destruct E2 as (_ & I1 & _). auto.
+        - auto. }
+      split.
+      { intros y Hy. rewrite (H3 y Hy), link_of_set. destruct (y =? gid g) eqn:Ey; [lia|auto]. }
+      split.
+      { intros Hall. specialize (Hall x (or_introl eq_refl)). congruence. }
+      intros i0 _ Hall.
+      assert (Ex : aid x = i0) by (apply Hall; [left; auto|auto]).
+      destruct (ex_or_all (fun r => contains (aloc r) (gloc g)) l) as [Hex|Hno].
+      * apply H5; auto. intros r Hr. apply Hall. right; auto.
+      * rewrite (H4 Hno), link_of_set, Z.eqb_refl. congruence.
+    + injection E as <- <-.
+      destruct (IH _ _ _ _ ND F) as (R2 & H2 & H3 & H4 & H5).
+      split; auto. split.
+      { intros r [<-|Hr] Cr; [congruence|auto]. }
+      split; auto. split.
+      { intros Hall. apply H4. intros r Hr. apply Hall. right; auto. }
+      intros i0 (r & [<-|Hr] & Cr) Hall; [congruence|].
+      apply H5; [exists r; auto|]. intros r' Hr'. apply Hall; right; auto.
+Qed.
+
+Lemma pair_fold_spec G a sr : forall found t lk t' lk', (forall g, In g found -> In g G) -> NoDup (map aid t) ->
+  fold_left (pair_step a sr) found (Ok (t, lk)) = Ok (t', lk') ->
+  R G t t' /\
+  (forall g, In g found -> exists a1 a2, find_area t (aid a) = Some a1 /\ find_area t' (aid a) = Some a2 /\
+       In (gid g) (amem a2) /\ (defcond a1 g = true -> In (gid g) (adef a2))) /\
+  (sr = false -> lk' = lk) /\
+  (sr = true -> (forall x, ~ In x (map gid found) -> link_of lk' x = link_of lk x) /\
+                (forall g, In g found -> link_of lk' (gid g) = Some (aid a))).
+Proof.
+  intros found. induction found as [|g0 l IH]; intros t lk t' lk' HG ND F.
+  - cbn in F. injection F as <- <-. split; [apply R_refl|]. split; [intros g []|].
+    split; [auto|]. intros _. split; [auto|intros g []].
+  - cbn [fold_left] in F.
+    destruct (pair_step a sr (Ok (t, lk)) g0) as [[tm lkm]|k] eqn:E; [|rewrite pair_err in F; discriminate].
+    unfold pair_step in E. cbn [bind] in E.
+    destruct (add_cds DEPTH t (aid a) g0) as [t1|k] eqn:A; cbn [bind] in E; [|discriminate].
+    injection E as <- <-.
+    assert (Hg0 : In g0 G) by (apply HG; left; auto).
+    destruct (add_cds_spec G g0 Hg0 _ _ _ _ ND A) as (Rm & a0 & a0' & F1 & F2 & C1 & M & D).
+    assert (NDm : NoDup (map aid t1)) by (rewrite <- (R_aid _ _ _ Rm); exact ND).
+    assert (HG' : forall g, In g l -> In g G) by (intros; apply HG; right; auto).
+    destruct (IH _ _ _ _ HG' NDm F) as (R2 & H2 & H3 & H4).
+    split; [eapply R_trans; eauto|]. split.
+    { intros g [<-|Hgl].
+      - destruct (R_find _ _ _ _ _ R2 F2) as (a2 & Fa2 & E2). destruct E2 as (_ & I1 & I2 & _).
+        exists a0, a2. split; [auto|]. split; [auto|]. split; auto.
+      - destruct (H2 g Hgl) as (a1 & a2 & Fa1 & Fa2 & M2 & D2).
+        rewrite F2 in Fa1. injection Fa1 as <-.
+        destruct (R_find _ _ _ _ _ Rm F1) as (a'' & Fa'' & E1).
+        rewrite F2 in Fa''. injection Fa'' as <-. destruct E1 as (S1 & _).
+        exists a0, a2. split; [auto|]. split; [auto|]. split; [auto|].
+        intro Dd. apply D2. rewrite <- (static_defcond _ _ g S1). exact Dd. }
+    split.
+    { intros ->. exact (H3 eq_refl). }
+    intros ->. destruct (H4 eq_refl) as [H5 H6]. cbv iota in H5, H6. cbn [map] in *. split.
+    { intros y Hy. rewrite H5 by (intro; apply Hy; right; auto). rewrite link_of_set.
+      destruct (y =? gid g0) eqn:Ey; auto. exfalso; apply Hy; left. lia. }
+    intros g [<-|Hgl]; auto.
+    destruct (in_dec Z.eq_dec (gid g0) (map gid l)) as [Hin|Hnin].
+    + apply in_map_iff in Hin. destruct Hin as (g' & Eg & Hg'). rewrite <- Eg. auto.
+    + rewrite (H5 _ Hnin), link_of_set, Z.eqb_refl. auto.
+Qed.
+
+(* ------------------------------------------------------------------ gene list: bisect insertion, the look-up of an area, guard reflection *)
+Lemma SS_app_intro a b : SS a -> SS b -> (forall x y, In x a -> In y b -> le2 x y) -> SS (a ++ b).
+Proof.
+  induction a as [|x a IH]; intros Ha Hb Hab; [exact Hb|].
+  destruct Ha as [Hx Ha]. cbn [app SS]. split.
+  - intros r' Hr. apply in_app_or in Hr. destruct Hr as [Hr|Hr]; [now apply Hx|].
+    apply Hab; [now left|exact Hr].
+  - apply IH; [exact Ha|exact Hb|]. intros u v Hu Hv. apply Hab; [now right|exact Hv].
+Qed.
+
+Lemma SS_monotone l : SS l -> monotone l = true.
+Proof.
+  induction l as [|a l IH]; intros H; [reflexivity|].
+  destruct l as [|b t]; [reflexivity|].
+  destruct H as [Ha Hs].
+  change (monotone (a :: b :: t)) with
+    ((lstart (gloc a) <=? lstart (gloc b)) && (lend (gloc a) <=? lend (gloc b)) && monotone (b :: t)).
+  rewrite (IH Hs).
+  destruct (Ha b (or_introl eq_refl)) as [H1 H2]. unfold gs, ge in H1, H2.
+  apply Z.leb_le in H1. apply Z.leb_le in H2. rewrite H1, H2. reflexivity.
+Qed.
+
+Lemma feat_lt_gene x g : simple_gene x = true -> simple_gene g = true ->
+  (feat_lt (gloc x) (gloc g) = true <-> (gs x < gs g \/ (gs x = gs g /\ ge x - gs x < ge g - gs g))).
+Proof.
+  intros Hx Hg. destruct (simple_gene_inv x Hx) as (p & E & Hp & Es & Ee).
+  destruct (simple_gene_inv g Hg) as (p' & E' & Hp' & Es' & Ee').
+  unfold feat_lt. rewrite E, E', Es, Ee, Es', Ee', !fkey_single. unfold pair_lt. cbn [fst snd]. lia.
+Qed.
+
+(* add_cds_feature's bisect insertion keeps the gene list in the "no gene nested" order *)
+Lemma insert_SS l g : SS l -> (forall x, In x l -> simple_gene x = true) -> simple_gene g = true ->
+  (forall x, In x l -> le2 x g \/ le2 g x) ->
+  exists A B, l = A ++ B /\
+     insert_at (bisect (fun e => feat_lt (gloc e) (gloc g)) l 0) g l = A ++ g :: B /\ SS (A ++ g :: B).
+Proof.
+  intros Hss Hsim Hg Hcmp.
+  destruct (downward_split (fun e => feat_lt (gloc e) (gloc g)) l) as (A & B & E & HA & HB).
+  { intros a x b y E Hy Hp. subst l.
+    assert (Hx : simple_gene x = true) by (apply Hsim, in_or_app; right; now left).
+    assert (Hy' : simple_gene y = true) by (apply Hsim, in_or_app; right; now right).
+    apply SS_app in Hss. destruct Hss as (_ & [Hxb _] & _). specialize (Hxb y Hy). destruct Hxb as [L1 L2].
+    apply (feat_lt_gene x g Hx Hg). apply (feat_lt_gene y g Hy' Hg) in Hp. lia. }
+  exists A, B. split; [exact E|]. subst l.
+  rewrite (bisect_partition _ A B 0%nat HA HB (Nat.le_0_l _)).
+  unfold insert_at. rewrite firstn_length_app, skipn_length_app. split; [reflexivity|].
+  destruct (SS_app A B Hss) as (SA & SB & HAB).
+  assert (HgB : forall y, In y B -> le2 g y).
+  { intros y Hy.
+    assert (Hys : simple_gene y = true) by (apply Hsim, in_or_app; now right).
+    pose proof (feat_lt_gene y g Hys Hg) as F. specialize (HB y Hy). cbn beta in HB.
+    destruct (Hcmp y (in_or_app _ _ _ (or_intror Hy))) as [C|C]; [|exact C].
+    destruct C as [C1 C2]. unfold le2.
+    destruct (Z_lt_ge_dec (gs y) (gs g)) as [Hlt|Hge].
+    - rewrite (proj2 F (or_introl Hlt)) in HB. discriminate.
+    - destruct (Z_lt_ge_dec (ge y) (ge g)) as [Hlt2|Hge2]; [|lia].
+      assert (Ht : feat_lt (gloc y) (gloc g) = true) by (apply F; right; lia).
+      rewrite Ht in HB. discriminate. }
+  apply SS_app_intro; [exact SA|split; [exact HgB|exact SB]|].
+  intros x y Hx [<-|Hy]; [|now apply HAB].
+  assert (Hxs : simple_gene x = true) by (apply Hsim, in_or_app; now left).
+  pose proof (HA x Hx) as Hl. cbn beta in Hl. apply (feat_lt_gene x g Hxs Hg) in Hl.
+  destruct (Hcmp x (in_or_app _ _ _ (or_introl Hx))) as [C|C]; [exact C|].
+  destruct C as [C1 C2]. unfold le2. lia.
+Qed.
+
+(* the look-up made by add_protocluster / add_subregion / add_region / add_candidate_cluster *)
+Lemma lookup_area l a : SS l -> (forall x, In x l -> simple_gene x = true) -> area_simple a = true ->
+  lookup l (aloc a) false = filter (fun g => contains (aloc a) (gloc g)) l.
+Proof.
+  intros Hss Hsim Ha. unfold area_simple in Ha. apply andb_prop in Ha. destruct Ha as [Hq H0].
+  apply Z.leb_le in H0.
+  assert (Hl : layout_ok l = true).
+  { unfold layout_ok. apply andb_true_intro. split; [apply forallb_forall; exact Hsim|apply SS_monotone; exact Hss]. }
+  assert (Hc : is_compound (aloc a) = false).
+  { destruct (query_ok_inv _ Hq) as (p & E & _). rewrite E. reflexivity. }
+  assert (Hq' : query_ok (clamp (aloc a)) = true) by (rewrite (clamp_nonneg _ H0); exact Hq).
+  rewrite (lookup_exact l (aloc a) false Hl Hc Hq'). rewrite (clamp_nonneg _ H0).
+  apply filter_ext. intros g. unfold hit. cbn [andb]. apply orb_false_r.
+Qed.
+
+Lemma area_simple_simple a : area_simple a = true -> simple_area a /\ 0 <= as_ a.
+Proof.
+  intros Ha. unfold area_simple in Ha. apply andb_prop in Ha. destruct Ha as [Hq H0].
+  apply Z.leb_le in H0. split; [|exact H0].
+  destruct (query_ok_inv _ Hq) as (p & E & Hp). exists p. split; assumption.
+Qed.
+
+Lemma zmem_false_not_In x r : zmem x r = false -> ~ In x r.
+Proof.
+  intros H Hin. assert (Ht : zmem x r = true).
+  { unfold zmem. apply existsb_exists. exists x. split; [exact Hin|apply Z.eqb_refl]. }
+  rewrite Ht in H. discriminate.
+Qed.
+
+Lemma unique_ids_NoDup l : unique_ids l = true -> NoDup l.
+Proof.
+  induction l as [|x r IH]; intros H; [constructor|].
+  change (negb (zmem x r) && unique_ids r = true) in H.
+  apply andb_prop in H. destruct H as [H1 H2]. apply negb_true_iff in H1.
+  constructor; [apply zmem_false_not_In; exact H1|apply IH; exact H2].
+Qed.
+
+Lemma chain_ok_spec genes : chain_ok genes = true -> forall x y, In x genes -> In y genes -> le2 x y \/ le2 y x.
+Proof.
+  intros H x y Hx Hy. unfold chain_ok in H.
+  pose proof (proj1 (forallb_forall _ _) H x Hx) as H1. cbn beta in H1.
+  pose proof (proj1 (forallb_forall _ _) H1 y Hy) as H2. cbn beta in H2.
+  apply orb_prop in H2. unfold le2, gs, ge.
+  destruct H2 as [H2|H2]; unfold le2b in H2; apply andb_prop in H2; destruct H2 as [A B];
+    apply Z.leb_le in A; apply Z.leb_le in B; [left|right]; split; assumption.
+Qed.
+
+Lemma area_fresh_spec a : area_fresh a = true -> amem a = [] /\ adef a = [].
+Proof.
+  unfold area_fresh. destruct (amem a); [|discriminate]. destruct (adef a); [|discriminate].
+  intros _. split; reflexivity.
+Qed.
+
+(* ------------------------------------------------------------------ Record._regions as areas *)
+Lemma find_area_snoc_new T a : ~ In (aid a) (map aid T) -> find_area (T ++ [a]) (aid a) = Some a.
+Proof.
+  unfold find_area. induction T as [|b T IH]; intros H.
+  - cbn. now rewrite Z.eqb_refl.
+  - cbn [app find]. cbn [map In] in H.
+    destruct (aid b =? aid a) eqn:E.
+    + exfalso. apply H. left. now apply Z.eqb_eq.
+    + apply IH. intro Hin. apply H. now right.
+Qed.
+
+Lemma find_area_snoc_old T a i b : find_area T i = Some b -> find_area (T ++ [a]) i = Some b.
+Proof.
+  unfold find_area. induction T as [|c T IH]; intros H.
+  - discriminate.
+  - cbn [app find] in *. destruct (aid c =? i); [exact H|now apply IH].
+Qed.
+
+Lemma areas_of_cons_found T i b ids : find_area T i = Some b -> areas_of T (i :: ids) = b :: areas_of T ids.
+Proof.
+  intros H. unfold areas_of. cbn [flat_map]. now rewrite H.
+Qed.
+
+Lemma areas_of_app T l1 l2 : areas_of T (l1 ++ l2) = areas_of T l1 ++ areas_of T l2.
+Proof. unfold areas_of. apply flat_map_app. Qed.
+
+Lemma insert_at_0 {A} (x : A) l : insert_at 0 x l = x :: l.
+Proof. reflexivity. Qed.
+Lemma insert_at_S_cons {A} n (x y : A) l : insert_at (S n) x (y :: l) = y :: insert_at n x l.
+Proof. reflexivity. Qed.
+Lemma insert_at_S_nil {A} n (x : A) : insert_at (S n) x [] = [x].
+Proof. reflexivity. Qed.
+
+Lemma areas_of_insert T ids idx x a : (forall i, In i ids -> exists b, find_area T i = Some b) ->
+  find_area T x = Some a -> areas_of T (insert_at idx x ids) = insert_at idx a (areas_of T ids).
+Proof.
+  intros Hall Hx. revert idx. induction ids as [|i ids IH]; intros idx.
+  - destruct idx.
+    + rewrite insert_at_0. rewrite (areas_of_cons_found T x a [] Hx). reflexivity.
+    + rewrite insert_at_S_nil. rewrite (areas_of_cons_found T x a [] Hx). reflexivity.
+  - destruct (Hall i (or_introl eq_refl)) as [b Hb].
+    assert (Hall' : forall j, In j ids -> exists b, find_area T j = Some b)
+      by (intros j Hj; apply Hall; now right).
+    destruct idx.
+    + rewrite !insert_at_0. now rewrite (areas_of_cons_found T x a _ Hx).
+    + rewrite insert_at_S_cons.
+      rewrite (areas_of_cons_found T i b _ Hb).
+      rewrite (areas_of_cons_found T i b _ Hb).
+      rewrite insert_at_S_cons. f_equal. now apply IH.
+Qed.
+
+Lemma areas_of_snoc T a ids : (forall i, In i ids -> exists b, find_area T i = Some b) ->
+  areas_of (T ++ [a]) ids = areas_of T ids.
+Proof.
+  induction ids as [|i ids IH]; intros Hall.
+  - reflexivity.
+  - destruct (Hall i (or_introl eq_refl)) as [b Hb].
+    rewrite (areas_of_cons_found T i b _ Hb).
+    rewrite (areas_of_cons_found (T ++ [a]) i b _ (find_area_snoc_old T a i b Hb)).
+    f_equal. apply IH. intros j Hj. apply Hall. now right.
+Qed.
+
+Lemma areas_of_in T ids r : In r (areas_of T ids) -> exists i, In i ids /\ find_area T i = Some r.
+Proof.
+  unfold areas_of. intros H. apply in_flat_map in H. destruct H as (i & Hi & Hr).
+  exists i. split; [exact Hi|].
+  destruct (find_area T i) as [b|]; cbn in Hr.
+  - destruct Hr as [->|[]]. reflexivity.
+  - destruct Hr.
+Qed.
+
+Lemma areas_of_in_intro T ids i r : In i ids -> find_area T i = Some r -> In r (areas_of T ids).
+Proof.
+  intros Hi Hr. unfold areas_of. apply in_flat_map. exists i. split; [exact Hi|].
+  rewrite Hr. now left.
+Qed.
+
+Lemma R_areas_of G t t' ids : R G t t' -> Forall2 (ext G) (areas_of t ids) (areas_of t' ids).
+Proof.
+  intros HR. induction ids as [|i ids IH].
+  - constructor.
+  - destruct (find_area t i) as [a|] eqn:E.
+    + destruct (R_find G t t' i a HR E) as (a' & E' & Hext).
+      rewrite (areas_of_cons_found t i a _ E), (areas_of_cons_found t' i a' _ E').
+      constructor; assumption.
+    + pose proof (R_find_none G t t' i HR E) as E'.
+      unfold areas_of in *. cbn [flat_map]. rewrite E, E'. cbn [app]. exact IH.
+Qed.
+
+Lemma Forall2_ext_in_r G l l' r' : Forall2 (ext G) l l' -> In r' l' -> exists r, In r l /\ ext G r r'.
+Proof.
+  induction 1 as [|x y l l' Hxy HF IH]; intros Hin.
+  - destruct Hin.
+  - destruct Hin as [<-|Hin].
+    + exists x. split; [now left|exact Hxy].
+    + destruct (IH Hin) as (r & Hr & He). exists r. split; [now right|exact He].
+Qed.
+
+Lemma Forall2_ext_in_l G l l' r : Forall2 (ext G) l l' -> In r l -> exists r', In r' l' /\ ext G r r'.
+Proof.
+  induction 1 as [|x y l l' Hxy HF IH]; intros Hin.
+  - destruct Hin.
+  - destruct Hin as [<-|Hin].
+    + exists y. split; [now left|exact Hxy].
+    + destruct (IH Hin) as (r' & Hr & He). exists r'. split; [now right|exact He].
+Qed.
+
+Lemma ext_bounds G a a' : ext G a a' -> aid a = aid a' /\ akind a = akind a' /\ aloc a = aloc a' /\ acore a = acore a' /\ aprod a = aprod a' /\ achild a = achild a'.
+Proof.
+  intros (Hs & _). unfold static in Hs. injection Hs. intros. repeat split; assumption.
+Qed.
+
+Lemma simple_area_ext G a a' : ext G a a' -> simple_area a -> simple_area a'.
+Proof.
+  intros He (p & Hp & Hlt). destruct (ext_bounds G a a' He) as (_ & _ & Hl & _).
+  exists p. split; [now rewrite <- Hl|exact Hlt].
+Qed.
+
+Lemma RS_ext G l l' : Forall2 (ext G) l l' -> RS l -> RS l'.
+Proof.
+  induction 1 as [|x y l l' Hxy HF IH]; intros HRS.
+  - exact I.
+  - cbn [RS] in *. destruct HRS as [Hx HRS]. split; [|now apply IH].
+    intros r' Hr'. destruct (Forall2_ext_in_r G l l' r' HF Hr') as (r & Hr & He).
+    specialize (Hx r Hr).
+    destruct (ext_bounds G x y Hxy) as (_ & _ & Hl1 & _).
+    destruct (ext_bounds G r r' He) as (_ & _ & Hl2 & _).
+    unfold ae, as_ in *. now rewrite <- Hl1, <- Hl2.
+Qed.
+
+(* ------------------------------------------------------------------ history invariant *)
+(* ------------------------------------------------------------------ small list facts *)
+Lemma in_mid {A} (x g : A) a b : In x (a ++ g :: b) <-> x = g \/ In x (a ++ b).
+Proof.
+  split; intros H.
+  - apply in_app_or in H. destruct H as [H|[H|H]]; [right; apply in_or_app; now left|now left|right; apply in_or_app; now right].
+  - destruct H as [->|H]; [apply in_or_app; right; now left|].
+    apply in_app_or in H. destruct H as [H|H]; apply in_or_app; [now left|right; now right].
+Qed.
+
+Lemma in_insert_at {A} (x y : A) i l : In x (insert_at i y l) <-> x = y \/ In x l.
+Proof.
+  unfold insert_at. rewrite in_mid. rewrite firstn_skipn. reflexivity.
+Qed.
+
+Lemma NoDup_mid {A} (x : A) a b : NoDup (a ++ b) -> ~ In x (a ++ b) -> NoDup (a ++ x :: b).
+Proof.
+  intros Hn Hx. apply (NoDup_Add (Add_app x a b)). now split.
+Qed.
+
+Lemma NoDup_snoc {A} (x : A) l : NoDup l -> ~ In x l -> NoDup (l ++ [x]).
+Proof.
+  intros Hn Hx. apply NoDup_mid; rewrite app_nil_r; assumption.
+Qed.
+
+Lemma NoDup_map_inj {A B} (f : A -> B) l : NoDup (map f l) -> forall x y, In x l -> In y l -> f x = f y -> x = y.
+Proof.
+  induction l as [|a l IH]; intros Hn x y Hx Hy E; [destruct Hx|].
+  cbn [map] in Hn. inversion Hn as [|? ? Hna Hnl]; subst.
+  destruct Hx as [<-|Hx]; destruct Hy as [<-|Hy]; [reflexivity| | |now apply IH].
+  - exfalso. apply Hna. rewrite E. now apply in_map.
+  - exfalso. apply Hna. rewrite <- E. now apply in_map.
+Qed.
+
+
+Lemma window_incl {A} (r : A) n m l : In r (firstn n (skipn m l)) -> In r l.
+Proof.
+  intros H. apply (In_skipn r m l). rewrite <- (firstn_skipn n (skipn m l)). apply in_or_app. now left.
+Qed.
+
+Lemma existsb_false_all {A} (f : A -> bool) l : existsb f l = false -> forall x, In x l -> f x = false.
+Proof.
+  intros H x Hx. destruct (f x) eqn:E; [|reflexivity].
+  assert (Ht : existsb f l = true) by (apply existsb_exists; now exists x). rewrite Ht in H. discriminate.
+Qed.
+
+
+Lemma fold_bind_err {A S} (f : S -> A -> res S) l k :
+  fold_left (fun acc o => do st <- acc; f st o) l (Err k) = Err k.
+Proof. induction l as [|x l IH]; [reflexivity|exact IH]. Qed.
+
+(* ------------------------------------------------------------------ the invariant of a record under construction *)
+Definition regs_of (st : state) : list area := areas_of (sareas st) (sregs st).
+
+Record Inv (st : state) : Prop := mkInv {
+  inv_simple : forall g, In g (sgenes st) -> simple_gene g = true;
+  inv_ss : SS (sgenes st);
+  inv_gid : NoDup (map gid (sgenes st));
+  inv_aid : NoDup (map aid (sareas st));
+  inv_asimple : forall a, In a (sareas st) -> area_simple a = true;
+  inv_sound : forall a, In a (sareas st) -> mem_sound (sgenes st) a;
+  inv_complete : forall a, In a (sareas st) -> mem_complete (sgenes st) a;
+  inv_regs_found : forall i, In i (sregs st) -> exists a, find_area (sareas st) i = Some a /\ akind a = K_REGION;
+  inv_regs_all : forall a, In a (sareas st) -> akind a = K_REGION -> In (aid a) (sregs st);
+  inv_rs : RS (regs_of st);
+  inv_link_complete : forall g r, In g (sgenes st) -> In r (regs_of st) -> contains (aloc r) (gloc g) = true ->
+                        link_of (slink st) (gid g) = Some (aid r);
+  inv_link_sound : forall x i, link_of (slink st) x = Some i ->
+                     exists g r, In g (sgenes st) /\ gid g = x /\ In r (regs_of st) /\ aid r = i /\
+                                 contains (aloc r) (gloc g) = true
+}.
+
+Lemma inv_empty : Inv empty_state.
+Proof.
+  constructor; cbn; try (intros; contradiction); try constructor; try exact I.
+  - intros x i H. discriminate.
+Qed.
+
+Lemma regs_in_areas st r : In r (regs_of st) -> In r (sareas st) /\ In (aid r) (sregs st).
+Proof.
+  intros H. apply areas_of_in in H. destruct H as (i & Hi & Hf).
+  destruct (find_area_in _ _ _ Hf) as [Hin <-]. now split.
+Qed.
+
+Lemma regs_simple st : Inv st -> forall r, In r (regs_of st) -> simple_area r.
+Proof.
+  intros I r Hr. apply area_simple_simple. apply (inv_asimple st I). now apply regs_in_areas.
+Qed.
+
+Lemma sound_ext G0 G a a' : mem_sound G0 a -> incl G0 G -> ext G a a' -> mem_sound G a'.
+Proof.
+  intros [S1 S2] Hinc Hext. pose proof Hext as (Est & _ & _ & E1 & E2).
+  destruct (ext_bounds _ _ _ Hext) as (_ & _ & El & _).
+  split.
+  - intros x Hx. destruct (E1 x Hx) as [Hold|(g & Hg & Eg & Hc)].
+    + destruct (S1 x Hold) as (g & Hg & Eg & Hc). exists g. rewrite <- El. repeat split; auto.
+    + exists g. rewrite <- El. repeat split; auto.
+  - intros x Hx. destruct (E2 x Hx) as [Hold|(g & Hg & Eg & Hc & Hd)].
+    + destruct (S2 x Hold) as (g & Hg & Eg & Hc & Hd). exists g. rewrite <- El, <- (defcond_static a a' g Est). repeat split; auto.
+    + exists g. rewrite <- El, <- (defcond_static a a' g Est). repeat split; auto.
+Qed.
+
+(* completeness survives any extension (for the genes it was known for) *)
+Lemma complete_ext_old G a a' g : ext G a a' -> contains (aloc a') (gloc g) = true ->
+  (contains (aloc a) (gloc g) = true -> In (gid g) (amem a) /\ (defcond a g = true -> In (gid g) (adef a))) ->
+  In (gid g) (amem a') /\ (defcond a' g = true -> In (gid g) (adef a')).
+Proof.
+  intros Hext Hc Hold. pose proof Hext as (Est & I1 & I2 & _ & _).
+  destruct (ext_bounds _ _ _ Hext) as (_ & _ & El & _).
+  rewrite <- El in Hc. destruct (Hold Hc) as [H1 H2]. split; [now apply I1|].
+  intros Hd. apply I2, H2. now rewrite (defcond_static a a' g Est).
+Qed.
+
+Lemma area_simple_ext G a a' : ext G a a' -> area_simple a = true -> area_simple a' = true.
+Proof.
+  intros Hext H. destruct (ext_bounds _ _ _ Hext) as (_ & _ & El & _). unfold area_simple in *. now rewrite <- El.
+Qed.
+
+(* the area with a given id in a table without duplicate ids *)
+Lemma in_find_same tbl a b : NoDup (map aid tbl) -> In a tbl -> find_area tbl (aid a) = Some b -> a = b.
+Proof.
+  intros Hn Ha Hf. rewrite (find_area_nodup tbl a Hn Ha) in Hf. now injection Hf.
+Qed.
+
+(* ------------------------------------------------------------------ a gene is added (gene after areas) *)
+Lemma step_gene st g st' : Inv st -> add_gene st g = Ok st' ->
+  simple_gene g = true -> (forall x, In x (sgenes st) -> le2 x g \/ le2 g x) -> ~ In (gid g) (map gid (sgenes st)) ->
+  Inv st' /\ (forall x, In x (sgenes st') <-> x = g \/ In x (sgenes st)) /\
+  map static (sareas st') = map static (sareas st).
+Proof.
+  intros I H Hg Hchain Hfresh. unfold add_gene in H.
+  destruct (existsb (fun x => loc_eqb (gloc x) (gloc g)) (sgenes st)); [discriminate|].
+  destruct (insert_SS (sgenes st) g (inv_ss st I) (inv_simple st I) Hg Hchain) as (A & B & EAB & Eins & HSS).
+  rewrite Eins in H. set (G := A ++ g :: B) in *.
+  unfold link_cds in H. cbn [sgenes sareas sregs slink] in H.
+  fold (regs_of st) in H.
+  set (left := bisect (fun r => region_lt_cds r g) (regs_of st) 0) in *.
+  set (right := bisect (fun r => negb (cds_lt_region g r)) (regs_of st) left) in *.
+  set (window := firstn (S right - (left - 1)) (skipn (left - 1) (regs_of st))) in *.
+  set (ids := map aid (filter (fun a => negb (akind a =? K_REGION)) (sareas st))) in *.
+  match type of H with (do tl <- ?F; _) = _ => destruct F as [[t1 lk1]|] eqn:EW end; [|discriminate].
+  cbn [bind] in H.
+  match type of H with (do t2 <- ?F; _) = _ => destruct F as [t2|] eqn:ES end; [|discriminate].
+  cbn [bind] in H. injection H as <-.
+  assert (HinG : In g G) by (apply in_mid; now left).
+  assert (HG : forall x, In x G <-> x = g \/ In x (sgenes st)) by (intros x; unfold G; rewrite in_mid, <- EAB; reflexivity).
+  assert (Hincl : incl (sgenes st) G) by (intros x Hx; apply HG; now right).
+  destruct (win_fold_spec G g HinG window (sareas st) (slink st) t1 lk1 (inv_aid st I) EW) as (R1 & W2 & W3 & W4 & W5).
+  assert (Hn1 : NoDup (map aid t1)) by (rewrite <- (R_aid _ _ _ R1); exact (inv_aid st I)).
+  destruct (scan_fold_spec G g HinG ids t1 t2 Hn1 ES) as (R2 & S2).
+  pose proof (R_trans _ _ _ _ R1 R2) as R12.
+  assert (Hn2 : NoDup (map aid t2)) by (rewrite <- (R_aid _ _ _ R12); exact (inv_aid st I)).
+  assert (Hregs : Forall2 (ext G) (regs_of st) (areas_of t2 (sregs st))) by (apply R_areas_of; exact R12).
+  assert (Hwin_in : forall r, In r window -> In r (regs_of st)) by (intros r Hr; exact (window_incl r _ _ _ Hr)).
+  assert (Hnomem : forall r, In r (regs_of st) -> zmem (gid g) (amem r) = false).
+  { intros r Hr. destruct (zmem (gid g) (amem r)) eqn:E; [exfalso|reflexivity].
+    apply zmem_In in E. destruct (regs_in_areas st r Hr) as [Hra _].
+    destruct (inv_sound st I r Hra) as [S1 _]. destruct (S1 _ E) as (g0 & Hg0 & Eg0 & _).
+    apply Hfresh. rewrite <- Eg0. now apply in_map. }
+  assert (Hwindow : forall r, In r (regs_of st) -> contains (aloc r) (gloc g) = true -> In r window).
+  { exact (link_window_complete (regs_of st) g (inv_rs st I) (regs_simple st I) Hg Hnomem). }
+  assert (Hgid_old : forall g0, In g0 (sgenes st) -> gid g0 <> gid g).
+  { intros g0 Hg0 E. apply Hfresh. rewrite <- E. now apply in_map. }
+  split; [|split; [exact HG|cbn [sareas]; symmetry; exact (R_static _ _ _ R12)]].
+  constructor; cbn [sgenes sareas sregs slink]; fold G.
+  - intros x Hx. apply HG in Hx. destruct Hx as [->|Hx]; [exact Hg|now apply (inv_simple st I)].
+  - exact HSS.
+  - unfold G. rewrite map_app. cbn [map]. apply NoDup_mid; rewrite <- map_app, <- EAB; [exact (inv_gid st I)|exact Hfresh].
+  - exact Hn2.
+  - intros a' Ha'. destruct (R_in _ _ _ _ R12 Ha') as (a & Ha & Hext).
+    exact (area_simple_ext _ _ _ Hext (inv_asimple st I a Ha)).
+  - intros a' Ha'. destruct (R_in _ _ _ _ R12 Ha') as (a & Ha & Hext).
+    exact (sound_ext _ _ _ _ (inv_sound st I a Ha) Hincl Hext).
+  - (* completeness *)
+    intros a' Ha' g0 Hg0 Hc. destruct (R_in _ _ _ _ R12 Ha') as (a & Ha & Hext).
+    apply HG in Hg0. destruct Hg0 as [->|Hg0].
+    2:{ apply (complete_ext_old G a a' g0 Hext Hc). intros Hc0. exact (inv_complete st I a Ha g0 Hg0 Hc0). }
+    destruct (ext_bounds _ _ _ Hext) as (Eid & Ekind & Eloc & _).
+    pose proof Hext as (Est & _).
+    rewrite <- Eloc in Hc.
+    pose proof (find_area_nodup _ _ (inv_aid st I) Ha) as Hfa.
+    destruct (akind a =? K_REGION) eqn:Ek.
+    + (* a region: found through the bisected window *)
+      assert (Hk : akind a = K_REGION) by lia.
+      assert (Hreg : In a (regs_of st)).
+      { apply (areas_of_in_intro _ _ (aid a)); [exact (inv_regs_all st I a Ha Hk)|exact Hfa]. }
+      destruct (W2 a (Hwindow a Hreg Hc) Hc) as (a1 & Hf1 & Hm1).
+      destruct (R_find _ _ _ _ _ R2 Hf1) as (a2 & Hf2 & Hext2).
+      assert (a' = a2) by (apply (in_find_same t2 a' a2 Hn2 Ha'); rewrite <- Eid; exact Hf2). subst a2.
+      split; [destruct Hext2 as (_ & Hi & _); now apply Hi|].
+      intros Hd. unfold defcond in Hd. rewrite <- Ekind, Hk in Hd. discriminate.
+    + (* any other collection: the exhaustive scan *)
+      assert (Hi : In (aid a) ids).
+      { unfold ids. apply in_map. apply filter_In. split; [exact Ha|now rewrite Ek]. }
+      destruct (R_find _ _ _ _ _ R1 Hfa) as (a1 & Hf1 & Hext1).
+      destruct (ext_bounds _ _ _ Hext1) as (_ & _ & Eloc1 & _). pose proof Hext1 as (Est1 & _).
+      rewrite Eloc1 in Hc.
+      destruct (S2 (aid a) a1 Hi Hf1 Hc) as (a2 & Hf2 & Hm2 & Hd2).
+      assert (a' = a2) by (apply (in_find_same t2 a' a2 Hn2 Ha'); rewrite <- Eid; exact Hf2). subst a2.
+      split; [exact Hm2|]. intros Hd. apply Hd2.
+      rewrite <- (defcond_static a a1 g Est1), (defcond_static a a' g Est). exact Hd.
+  - intros i Hi. destruct (inv_regs_found st I i Hi) as (a & Hf & Hk).
+    destruct (R_find _ _ _ _ _ R12 Hf) as (a' & Hf' & Hext).
+    exists a'. split; [exact Hf'|]. destruct (ext_bounds _ _ _ Hext) as (_ & Ek & _). now rewrite <- Ek.
+  - intros a' Ha' Hk. destruct (R_in _ _ _ _ R12 Ha') as (a & Ha & Hext).
+    destruct (ext_bounds _ _ _ Hext) as (Eid & Ek & _). rewrite <- Eid. apply (inv_regs_all st I a Ha). now rewrite Ek.
+  - unfold regs_of. cbn [sareas sregs]. exact (RS_ext _ _ _ Hregs (inv_rs st I)).
+  - (* every gene is linked to the region containing it *)
+    unfold regs_of. cbn [sareas sregs]. intros g0 r' Hg0 Hr' Hc.
+    destruct (Forall2_ext_in_r _ _ _ _ Hregs Hr') as (r & Hr & Hext).
+    destruct (ext_bounds _ _ _ Hext) as (Eid & _ & Eloc & _). rewrite <- Eid. rewrite <- Eloc in Hc.
+    apply HG in Hg0. destruct Hg0 as [->|Hg0].
+    + apply W5; [exists r; split; [now apply Hwindow|exact Hc]|].
+      intros r2 Hr2 Hc2. f_equal.
+      exact (RS_contains_same (regs_of st) g r2 r (inv_rs st I) (regs_simple st I) Hg (Hwin_in r2 Hr2) Hr Hc2 Hc).
+    + rewrite (W3 (gid g0) (Hgid_old g0 Hg0)). exact (inv_link_complete st I g0 r Hg0 Hr Hc).
+  - (* and only to such a region *)
+    unfold regs_of. cbn [sareas sregs]. intros x i Hl.
+    destruct (Z.eq_dec x (gid g)) as [->|Hx].
+    + destruct (existsb (fun r => contains (aloc r) (gloc g)) window) eqn:Eex.
+      * apply existsb_exists in Eex. destruct Eex as (r & Hr & Hc).
+        assert (Hl2 : link_of lk1 (gid g) = Some (aid r)).
+        { apply W5; [exists r; now split|]. intros r2 Hr2 Hc2. f_equal.
+          exact (RS_contains_same (regs_of st) g r2 r (inv_rs st I) (regs_simple st I) Hg (Hwin_in r2 Hr2) (Hwin_in r Hr) Hc2 Hc). }
+        rewrite Hl2 in Hl. injection Hl as <-.
+        destruct (Forall2_ext_in_l _ _ _ _ Hregs (Hwin_in r Hr)) as (r' & Hr' & Hext).
+        destruct (ext_bounds _ _ _ Hext) as (Eid & _ & Eloc & _).
+        exists g, r'. rewrite <- Eloc. repeat split; auto.
+      * exfalso. pose proof (existsb_false_all _ _ Eex) as Hall. cbn beta in Hall.
+        rewrite (W4 Hall) in Hl.
+        destruct (inv_link_sound st I _ _ Hl) as (g0 & _ & Hg0 & E & _). exact (Hgid_old g0 Hg0 E).
+    + rewrite (W3 x Hx) in Hl. destruct (inv_link_sound st I _ _ Hl) as (g0 & r & Hg0 & E & Hr & Ei & Hc).
+      destruct (Forall2_ext_in_l _ _ _ _ Hregs Hr) as (r' & Hr' & Hext).
+      destruct (ext_bounds _ _ _ Hext) as (Eid & _ & Eloc & _).
+      exists g0, r'. rewrite <- Eloc, <- Eid. repeat split; auto.
+Qed.
+
+(* ------------------------------------------------------------------ an area is added (area after genes) *)
+Lemma pair_tbl st a sr regs' st' : Inv st -> area_simple a = true -> amem a = [] -> adef a = [] ->
+  ~ In (aid a) (map aid (sareas st)) ->
+  pair_genes (mkState (sgenes st) (sareas st ++ [a]) regs' (slink st)) a sr = Ok st' ->
+  exists t1 lk1, st' = mkState (sgenes st) t1 regs' lk1 /\ R (sgenes st) (sareas st ++ [a]) t1 /\
+    NoDup (map aid t1) /\ (forall a', In a' t1 -> area_simple a' = true) /\
+    (forall a', In a' t1 -> mem_sound (sgenes st) a') /\ (forall a', In a' t1 -> mem_complete (sgenes st) a') /\
+    (sr = false -> lk1 = slink st) /\
+    (sr = true ->
+       (forall g, In g (sgenes st) -> contains (aloc a) (gloc g) = false -> link_of lk1 (gid g) = link_of (slink st) (gid g)) /\
+       (forall g, In g (sgenes st) -> contains (aloc a) (gloc g) = true -> link_of lk1 (gid g) = Some (aid a)) /\
+       (forall x i, link_of lk1 x = Some i ->
+          (exists g, In g (sgenes st) /\ gid g = x /\ contains (aloc a) (gloc g) = true /\ i = aid a) \/
+          link_of (slink st) x = Some i)).
+Proof.
+  intros I Has Hm Hd Hfresh H. unfold pair_genes in H. cbn [sgenes sareas sregs slink] in H.
+  rewrite (lookup_area (sgenes st) a (inv_ss st I) (inv_simple st I) Has) in H.
+  set (G := sgenes st) in *. set (T0 := sareas st ++ [a]) in *.
+  set (found := filter (fun g => contains (aloc a) (gloc g)) G) in *.
+  match type of H with (do tl <- ?F; _) = _ => destruct F as [[t1 lk1]|] eqn:EP end; [|discriminate].
+  cbn [bind] in H. injection H as <-.
+  assert (Hn0 : NoDup (map aid T0)).
+  { unfold T0. rewrite map_app. cbn [map]. apply NoDup_snoc; [exact (inv_aid st I)|exact Hfresh]. }
+  assert (Hfound : forall g, In g found <-> In g G /\ contains (aloc a) (gloc g) = true) by (intros g; apply filter_In).
+  destruct (pair_fold_spec G a sr found T0 (slink st) t1 lk1 (fun g Hg => proj1 (proj1 (Hfound g) Hg)) Hn0 EP)
+    as (R1 & P2 & P3 & P4).
+  assert (Hn1 : NoDup (map aid t1)) by (rewrite <- (R_aid _ _ _ R1); exact Hn0).
+  assert (Hfa : find_area T0 (aid a) = Some a) by (apply find_area_snoc_new; exact Hfresh).
+  assert (HT0 : forall a0, In a0 T0 -> In a0 (sareas st) \/ a0 = a).
+  { intros a0 H0. unfold T0 in H0. apply in_app_or in H0. destruct H0 as [H0|[<-|[]]]; [now left|now right]. }
+  exists t1, lk1. split; [reflexivity|]. split; [exact R1|]. split; [exact Hn1|].
+  split; [|split; [|split; [|split]]].
+  - intros a' Ha'. destruct (R_in _ _ _ _ R1 Ha') as (a0 & Ha0 & Hext).
+    apply (area_simple_ext _ _ _ Hext). destruct (HT0 a0 Ha0) as [Ho| ->]; [now apply (inv_asimple st I)|exact Has].
+  - intros a' Ha'. destruct (R_in _ _ _ _ R1 Ha') as (a0 & Ha0 & Hext).
+    apply (sound_ext G G a0 a'); [|apply incl_refl|exact Hext].
+    destruct (HT0 a0 Ha0) as [Ho| ->]; [now apply (inv_sound st I)|].
+    split; intros x Hx; [rewrite Hm in Hx|rewrite Hd in Hx]; destruct Hx.
+  - intros a' Ha' g Hg Hc. destruct (R_in _ _ _ _ R1 Ha') as (a0 & Ha0 & Hext).
+    destruct (HT0 a0 Ha0) as [Ho| ->].
+    + apply (complete_ext_old G a0 a' g Hext Hc). intros Hc0. exact (inv_complete st I a0 Ho g Hg Hc0).
+    + destruct (ext_bounds _ _ _ Hext) as (Eid & _ & Eloc & _). pose proof Hext as (Est & _).
+      rewrite <- Eloc in Hc.
+      destruct (P2 g (proj2 (Hfound g) (conj Hg Hc))) as (a1 & a2 & Hf1 & Hf2 & Hm2 & Hd2).
+      rewrite Hfa in Hf1. injection Hf1 as <-.
+      assert (a' = a2) by (apply (in_find_same t1 a' a2 Hn1 Ha'); rewrite <- Eid; exact Hf2). subst a2.
+      split; [exact Hm2|]. intros Hdc. apply Hd2. now rewrite (defcond_static a a' g Est).
+  - exact P3.
+  - intros Hsr. destruct (P4 Hsr) as [L1 L2].
+    assert (Hnotin : forall g, In g G -> contains (aloc a) (gloc g) = false -> ~ In (gid g) (map gid found)).
+    { intros g Hg Hc Hin. apply in_map_iff in Hin. destruct Hin as (g1 & E1 & Hg1).
+      apply Hfound in Hg1. destruct Hg1 as [Hg1 Hc1].
+      assert (g1 = g) by (apply (NoDup_map_inj gid G (inv_gid st I)); assumption). subst g1.
+      rewrite Hc in Hc1. discriminate. }
+    split; [|split].
+    + intros g Hg Hc. apply L1. now apply Hnotin.
+    + intros g Hg Hc. apply L2. apply Hfound. now split.
+    + intros x i Hl. destruct (in_dec Z.eq_dec x (map gid found)) as [Hin|Hnin].
+      * left. apply in_map_iff in Hin. destruct Hin as (g1 & E1 & Hg1).
+        pose proof (L2 g1 Hg1) as Hl2. rewrite E1, Hl in Hl2. injection Hl2 as ->.
+        apply Hfound in Hg1. destruct Hg1 as [Hg1 Hc1]. exists g1. repeat split; auto.
+      * right. now rewrite <- (L1 x Hnin).
+Qed.
+
+Lemma step_area st a st' : Inv st -> add_area st a = Ok st' ->
+  area_simple a = true -> amem a = [] -> adef a = [] -> ~ In (aid a) (map aid (sareas st)) -> akind a <> K_REGION ->
+  Inv st' /\ sgenes st' = sgenes st /\ map static (sareas st') = map static (sareas st) ++ [static a].
+Proof.
+  intros I H Has Hm Hd Hfresh Hk. unfold add_area in H.
+  destruct (pair_tbl st a false (sregs st) st' I Has Hm Hd Hfresh H)
+    as (t1 & lk1 & -> & R1 & Hn1 & T1 & T2 & T3 & L1 & _).
+  specialize (L1 eq_refl). subst lk1.
+  set (T0 := sareas st ++ [a]) in *.
+  assert (Hfound0 : forall i, In i (sregs st) -> exists b, find_area T0 i = Some b).
+  { intros i Hi. destruct (inv_regs_found st I i Hi) as (b & Hb & _). exists b. now apply find_area_snoc_old. }
+  assert (Hregs : Forall2 (ext (sgenes st)) (regs_of st) (areas_of t1 (sregs st))).
+  { unfold regs_of. rewrite <- (areas_of_snoc (sareas st) a (sregs st)).
+    - apply R_areas_of. exact R1.
+    - intros i Hi. destruct (inv_regs_found st I i Hi) as (b & Hb & _). now exists b. }
+  split; [|split; [reflexivity|]].
+  2:{ cbn [sareas]. rewrite <- (R_static _ _ _ R1). unfold T0. rewrite map_app. reflexivity. }
+  constructor; cbn [sgenes sareas sregs slink]; try (unfold regs_of; cbn [sareas sregs]).
+  - exact (inv_simple st I).
+  - exact (inv_ss st I).
+  - exact (inv_gid st I).
+  - exact Hn1.
+  - exact T1.
+  - exact T2.
+  - exact T3.
+  - intros i Hi. destruct (inv_regs_found st I i Hi) as (b & Hb & Hkb).
+    destruct (R_find _ _ _ _ _ R1 (find_area_snoc_old _ a _ _ Hb)) as (b' & Hb' & Hext).
+    exists b'. split; [exact Hb'|]. destruct (ext_bounds _ _ _ Hext) as (_ & Ek & _). now rewrite <- Ek.
+  - intros a' Ha' Hka. destruct (R_in _ _ _ _ R1 Ha') as (a0 & Ha0 & Hext).
+    destruct (ext_bounds _ _ _ Hext) as (Eid & Ek & _).
+    unfold T0 in Ha0. apply in_app_or in Ha0. destruct Ha0 as [Ha0|[<-|[]]].
+    + rewrite <- Eid. apply (inv_regs_all st I a0 Ha0). now rewrite Ek.
+    + exfalso. apply Hk. now rewrite Ek.
+  - exact (RS_ext _ _ _ Hregs (inv_rs st I)).
+  - intros g r' Hg Hr' Hc. destruct (Forall2_ext_in_r _ _ _ _ Hregs Hr') as (r & Hr & Hext).
+    destruct (ext_bounds _ _ _ Hext) as (Eid & _ & Eloc & _). rewrite <- Eid. rewrite <- Eloc in Hc.
+    exact (inv_link_complete st I g r Hg Hr Hc).
+  - intros x i Hl. destruct (inv_link_sound st I x i Hl) as (g & r & Hg & Ex & Hr & Ei & Hc).
+    destruct (Forall2_ext_in_l _ _ _ _ Hregs Hr) as (r' & Hr' & Hext).
+    destruct (ext_bounds _ _ _ Hext) as (Eid & _ & Eloc & _).
+    exists g, r'. rewrite <- Eloc, <- Eid. repeat split; auto.
+Qed.
+
+Lemma step_region st a st' : Inv st -> add_region st a = Ok st' ->
+  area_simple a = true -> amem a = [] -> adef a = [] -> ~ In (aid a) (map aid (sareas st)) -> akind a = K_REGION ->
+  Inv st' /\ sgenes st' = sgenes st /\ map static (sareas st') = map static (sareas st) ++ [static a].
+Proof.
+  intros I H Has Hm Hd Hfresh Hk. unfold add_region in H. fold (regs_of st) in H.
+  destruct (region_index a (regs_of st) 0) as [idx|] eqn:Eidx; [|discriminate]. cbn [bind] in H.
+  set (regs' := insert_at idx (aid a) (sregs st)) in *.
+  destruct (pair_tbl st a true regs' st' I Has Hm Hd Hfresh H)
+    as (t1 & lk1 & -> & R1 & Hn1 & T1 & T2 & T3 & _ & L).
+  destruct (L eq_refl) as (L1 & L2 & L3). clear L.
+  set (T0 := sareas st ++ [a]) in *. set (G := sgenes st) in *.
+  assert (Hfa : find_area T0 (aid a) = Some a) by (apply find_area_snoc_new; exact Hfresh).
+  assert (Hfound0 : forall i, In i (sregs st) -> exists b, find_area T0 i = Some b).
+  { intros i Hi. destruct (inv_regs_found st I i Hi) as (b & Hb & _). exists b. now apply find_area_snoc_old. }
+  assert (Hfoundold : forall i, In i (sregs st) -> exists b, find_area (sareas st) i = Some b).
+  { intros i Hi. destruct (inv_regs_found st I i Hi) as (b & Hb & _). now exists b. }
+  assert (E0 : areas_of T0 regs' = insert_at idx a (regs_of st)).
+  { unfold regs'. rewrite (areas_of_insert T0 (sregs st) idx (aid a) a Hfound0 Hfa).
+    unfold T0. rewrite (areas_of_snoc (sareas st) a (sregs st) Hfoundold). reflexivity. }
+  pose proof (area_simple_simple a Has) as [Hsa _].
+  assert (RS0 : RS (areas_of T0 regs')).
+  { rewrite E0. exact (region_index_RS a (regs_of st) idx Hsa (regs_simple st I) (inv_rs st I) Eidx). }
+  assert (Hsim0 : forall r, In r (areas_of T0 regs') -> simple_area r).
+  { intros r Hr. rewrite E0 in Hr. apply in_insert_at in Hr. destruct Hr as [->|Hr]; [exact Hsa|now apply (regs_simple st I)]. }
+  assert (Hregs : Forall2 (ext G) (areas_of T0 regs') (areas_of t1 regs')) by (apply R_areas_of; exact R1).
+  split; [|split; [reflexivity|]].
+  2:{ cbn [sareas]. rewrite <- (R_static _ _ _ R1). unfold T0. rewrite map_app. reflexivity. }
+  constructor; cbn [sgenes sareas sregs slink]; try (unfold regs_of; cbn [sareas sregs]).
+  - exact (inv_simple st I).
+  - exact (inv_ss st I).
+  - exact (inv_gid st I).
+  - exact Hn1.
+  - exact T1.
+  - exact T2.
+  - exact T3.
+  - intros i Hi. unfold regs' in Hi. apply in_insert_at in Hi.
+    assert (Hb : exists b, find_area T0 i = Some b /\ akind b = K_REGION).
+    { destruct Hi as [->|Hi]; [exists a; now split|].
+      destruct (inv_regs_found st I i Hi) as (b & Hb & Hkb). exists b. split; [now apply find_area_snoc_old|exact Hkb]. }
+    destruct Hb as (b & Hb & Hkb).
+    destruct (R_find _ _ _ _ _ R1 Hb) as (b' & Hb' & Hext).
+    exists b'. split; [exact Hb'|]. destruct (ext_bounds _ _ _ Hext) as (_ & Ek & _). now rewrite <- Ek.
+  - intros a' Ha' Hka. destruct (R_in _ _ _ _ R1 Ha') as (a0 & Ha0 & Hext).
+    destruct (ext_bounds _ _ _ Hext) as (Eid & Ek & _). unfold regs'. apply in_insert_at.
+    unfold T0 in Ha0. apply in_app_or in Ha0. destruct Ha0 as [Ha0|[<-|[]]].
+    + right. rewrite <- Eid. apply (inv_regs_all st I a0 Ha0). now rewrite Ek.
+    + left. now symmetry.
+  - exact (RS_ext _ _ _ Hregs RS0).
+  - intros g r' Hg Hr' Hc. destruct (Forall2_ext_in_r _ _ _ _ Hregs Hr') as (r & Hr & Hext).
+    destruct (ext_bounds _ _ _ Hext) as (Eid & _ & Eloc & _). rewrite <- Eid. rewrite <- Eloc in Hc.
+    assert (Hain : In a (areas_of T0 regs')) by (rewrite E0; apply in_insert_at; now left).
+    destruct (contains (aloc a) (gloc g)) eqn:Hca.
+    + rewrite (L2 g Hg Hca). do 2 f_equal.
+      exact (RS_contains_same _ g a r RS0 Hsim0 (inv_simple st I g Hg) Hain Hr Hca Hc).
+    + rewrite (L1 g Hg Hca). rewrite E0 in Hr. apply in_insert_at in Hr. destruct Hr as [->|Hr].
+      * rewrite Hc in Hca. discriminate.
+      * exact (inv_link_complete st I g r Hg Hr Hc).
+  - intros x i Hl. destruct (L3 x i Hl) as [(g & Hg & Ex & Hc & ->)|Hold].
+    + assert (Hain : In a (areas_of T0 regs')) by (rewrite E0; apply in_insert_at; now left).
+      destruct (Forall2_ext_in_l _ _ _ _ Hregs Hain) as (r' & Hr' & Hext).
+      destruct (ext_bounds _ _ _ Hext) as (Eid & _ & Eloc & _).
+      exists g, r'. rewrite <- Eloc, <- Eid. repeat split; auto.
+    + destruct (inv_link_sound st I x i Hold) as (g & r & Hg & Ex & Hr & Ei & Hc).
+      assert (Hrin : In r (areas_of T0 regs')) by (rewrite E0; apply in_insert_at; now right).
+      destruct (Forall2_ext_in_l _ _ _ _ Hregs Hrin) as (r' & Hr' & Hext).
+      destruct (ext_bounds _ _ _ Hext) as (Eid & _ & Eloc & _).
+      exists g, r'. rewrite <- Eloc, <- Eid. repeat split; auto.
+Qed.
+
+(* ------------------------------------------------------------------ whole histories *)
+Definition GuardP (ops : list op) : Prop :=
+  (forall g, In g (ops_genes ops) -> simple_gene g = true) /\
+  (forall x y, In x (ops_genes ops) -> In y (ops_genes ops) -> le2 x y \/ le2 y x) /\
+  NoDup (map gid (ops_genes ops)) /\
+  (forall a, In a (ops_areas ops) -> area_simple a = true /\ amem a = [] /\ adef a = []) /\
+  NoDup (map aid (ops_areas ops)) /\
+  (forall o, In o ops -> op_kind_ok o = true).
+
+Lemma history_guard_P ops : history_guard ops = true -> GuardP ops.
+Proof.
+  unfold history_guard. intros H.
+  repeat (apply andb_prop in H; let H' := fresh "H" in destruct H as [H H']).
+  unfold GuardP. repeat split.
+  - apply forallb_forall. assumption.
+  - apply chain_ok_spec. assumption.
+  - apply unique_ids_NoDup. assumption.
+  - rewrite forallb_forall in *. auto.
+  - rewrite forallb_forall in *. apply area_fresh_spec. auto.
+  - rewrite forallb_forall in *. apply area_fresh_spec. auto.
+  - apply unique_ids_NoDup. assumption.
+  - apply forallb_forall. assumption.
+Qed.
+
+Lemma ops_genes_app a b : ops_genes (a ++ b) = ops_genes a ++ ops_genes b.
+Proof. apply flat_map_app. Qed.
+Lemma ops_areas_app a b : ops_areas (a ++ b) = ops_areas a ++ ops_areas b.
+Proof. apply flat_map_app. Qed.
+
+Lemma NoDup_app_l {A} (a b : list A) : NoDup (a ++ b) -> NoDup a.
+Proof.
+  induction a as [|x a IH]; intros H; [constructor|].
+  cbn [app] in H. inversion H as [|? ? Hx Hn]; subst. constructor; [|now apply IH].
+  intros Hin. apply Hx. apply in_or_app. now left.
+Qed.
+
+Lemma GuardP_prefix ops o : GuardP (ops ++ [o]) -> GuardP ops.
+Proof.
+  intros (G1 & G2 & G3 & G4 & G5 & G6). rewrite ops_genes_app in G1, G2, G3. rewrite ops_areas_app in G4, G5.
+  rewrite map_app in G3, G5.
+  repeat split.
+  - intros g Hg. apply G1. apply in_or_app. now left.
+  - intros x y Hx Hy. apply G2; apply in_or_app; now left.
+  - exact (NoDup_app_l _ _ G3).
+  - apply G4. apply in_or_app. now left.
+  - apply G4. apply in_or_app. now left.
+  - apply G4. apply in_or_app. now left.
+  - exact (NoDup_app_l _ _ G5).
+  - intros o' Ho'. apply G6. apply in_or_app. now left.
+Qed.
+
+Lemma exec_snoc ops o : exec (ops ++ [o]) = (do st <- exec ops; step st o).
+Proof. unfold exec. rewrite fold_left_app. reflexivity. Qed.
+
+Definition sid (s : Z * Z * loc * loc * list Z * list Z) : Z := let '(i, _, _, _, _, _) := s in i.
+Lemma map_aid_static l : map aid l = map sid (map static l).
+Proof. rewrite map_map. reflexivity. Qed.
+
+Lemma NoDup_snoc_inv {A} (x : A) l : NoDup (l ++ [x]) -> ~ In x l.
+Proof. intros H. apply NoDup_remove_2 in H. now rewrite app_nil_r in H. Qed.
+
+Lemma exec_inv ops : forall st, GuardP ops -> exec ops = Ok st ->
+  Inv st /\ (forall x, In x (sgenes st) <-> In x (ops_genes ops)) /\
+  map static (sareas st) = map static (ops_areas ops).
+Proof.
+  induction ops as [|o ops IH] using rev_ind; intros st HG H.
+  - cbn in H. injection H as <-. split; [exact inv_empty|]. split; [reflexivity|reflexivity].
+  - rewrite exec_snoc in H. destruct (exec ops) as [st1|] eqn:E1; [|discriminate]. cbn [bind] in H.
+    destruct (IH st1 (GuardP_prefix _ _ HG) eq_refl) as (I1 & Hgenes & Hareas).
+    destruct HG as (G1 & G2 & G3 & G4 & G5 & G6).
+    rewrite ops_genes_app in *. rewrite ops_areas_app in *.
+    assert (Hk : op_kind_ok o = true) by (apply G6; apply in_or_app; right; now left).
+    assert (Hfresh_a : forall a, ops_areas [o] = [a] -> ~ In (aid a) (map aid (sareas st1))).
+    { intros a Ea. rewrite Ea, map_app in G5. cbn [map] in G5.
+      rewrite map_aid_static, Hareas, <- map_aid_static. exact (NoDup_snoc_inv _ _ G5). }
+    assert (Harea : forall a, ops_areas [o] = [a] -> area_simple a = true /\ amem a = [] /\ adef a = []).
+    { intros a Ea. apply G4. rewrite Ea. apply in_or_app. right. now left. }
+    destruct o as [g|a|a]; cbn [step] in H.
+    + cbn [ops_genes ops_areas flat_map app] in *. rewrite app_nil_r.
+      assert (Hg : simple_gene g = true) by (apply G1; apply in_or_app; right; now left).
+      assert (Hchain : forall x, In x (sgenes st1) -> le2 x g \/ le2 g x).
+      { intros x Hx. apply G2; apply in_or_app; [left; now apply Hgenes|right; now left]. }
+      assert (Hfresh : ~ In (gid g) (map gid (sgenes st1))).
+      { intros Hin. apply in_map_iff in Hin. destruct Hin as (x & Ex & Hx).
+        rewrite map_app in G3. cbn [map] in G3. apply (NoDup_snoc_inv _ _ G3).
+        rewrite <- Ex. apply in_map. now apply Hgenes. }
+      destruct (step_gene st1 g st I1 H Hg Hchain Hfresh) as (I2 & Hg2 & Ha2).
+      split; [exact I2|]. split; [|now rewrite Ha2].
+      intros x. rewrite Hg2, in_app_iff, Hgenes. cbn [In]. intuition.
+    + cbn [ops_genes ops_areas flat_map app] in *. rewrite app_nil_r.
+      destruct (Harea a eq_refl) as (A1 & A2 & A3).
+      assert (Hka : akind a <> K_REGION) by (cbn in Hk; lia).
+      destruct (step_area st1 a st I1 H A1 A2 A3 (Hfresh_a a eq_refl) Hka) as (I2 & Hg2 & Ha2).
+      split; [exact I2|]. split; [now rewrite Hg2|]. rewrite Ha2, Hareas, map_app. reflexivity.
+    + cbn [ops_genes ops_areas flat_map app] in *. rewrite app_nil_r.
+      destruct (Harea a eq_refl) as (A1 & A2 & A3).
+      assert (Hka : akind a = K_REGION) by (cbn in Hk; lia).
+      destruct (step_region st1 a st I1 H A1 A2 A3 (Hfresh_a a eq_refl) Hka) as (I2 & Hg2 & Ha2).
+      split; [exact I2|]. split; [now rewrite Hg2|]. rewrite Ha2, Hareas, map_app. reflexivity.
+Qed.
+
+Lemma spec_members_in genes a x : In x (spec_members genes a) <->
+  exists g, In g genes /\ gid g = x /\ contains (aloc a) (gloc g) = true.
+Proof.
+  unfold spec_members. rewrite in_map_iff. split.
+  - intros (g & E & Hg). apply filter_In in Hg. destruct Hg. exists g. repeat split; auto.
+  - intros (g & Hg & E & Hc). exists g. split; [exact E|]. apply filter_In. now split.
+Qed.
+
+Lemma spec_defs_in genes a x : akind a = K_PROTO -> In x (spec_defs genes a) <->
+  exists g, In g genes /\ gid g = x /\ contains (aloc a) (gloc g) = true /\ defcond a g = true.
+Proof.
+  intros Hk. unfold spec_defs, defcond. rewrite Hk. change (K_PROTO =? K_PROTO) with true. cbn [andb].
+  rewrite in_map_iff. split.
+  - intros (g & E & Hg). apply filter_In in Hg. destruct Hg as [Hg Hc].
+    exists g. rewrite <- andb_assoc in Hc. apply andb_prop in Hc. destruct Hc. repeat split; auto.
+  - intros (g & Hg & E & Hc & Hd). exists g. split; [exact E|]. apply filter_In. split; [exact Hg|].
+    rewrite <- andb_assoc, Hc, Hd. reflexivity.
+Qed.
+
+Lemma inv_members st : Inv st -> forall a, In a (sareas st) ->
+  (forall x, In x (amem a) <-> exists g, In g (sgenes st) /\ gid g = x /\ contains (aloc a) (gloc g) = true) /\
+  (forall x, In x (adef a) <-> exists g, In g (sgenes st) /\ gid g = x /\ contains (aloc a) (gloc g) = true /\ defcond a g = true).
+Proof.
+  intros I a Ha. destruct (inv_sound st I a Ha) as [S1 S2]. pose proof (inv_complete st I a Ha) as C.
+  split; intros x; split.
+  - apply S1.
+  - intros (g & Hg & <- & Hc). exact (proj1 (C g Hg Hc)).
+  - apply S2.
+  - intros (g & Hg & <- & Hc & Hd). exact (proj2 (C g Hg Hc) Hd).
+Qed.
+
+Theorem membership_order_independent ops st : history_guard ops = true -> exec ops = Ok st ->
+  (forall g, In g (sgenes st) <-> In g (ops_genes ops)) /\
+  map static (sareas st) = map static (ops_areas ops) /\
+  (forall a, In a (sareas st) ->
+     (forall x, In x (amem a) <-> In x (spec_members (ops_genes ops) a)) /\
+     (akind a = K_PROTO -> forall x, In x (adef a) <-> In x (spec_defs (ops_genes ops) a))) /\
+  (forall a, In a (sareas st) -> akind a = K_REGION -> In a (areas_of (sareas st) (sregs st))) /\
+  (forall g r, In g (ops_genes ops) -> In r (areas_of (sareas st) (sregs st)) ->
+     contains (aloc r) (gloc g) = true -> link_of (slink st) (gid g) = Some (aid r)) /\
+  (forall g i, In g (ops_genes ops) -> link_of (slink st) (gid g) = Some i ->
+     exists r, In r (areas_of (sareas st) (sregs st)) /\ aid r = i /\ contains (aloc r) (gloc g) = true).
+Proof.
+  intros HG H. destruct (exec_inv ops st (history_guard_P ops HG) H) as (I & Hgenes & Hareas).
+  split; [exact Hgenes|]. split; [exact Hareas|]. split; [|split; [|split]].
+  - intros a Ha. destruct (inv_members st I a Ha) as [M1 M2]. split.
+    + intros x. rewrite spec_members_in, M1. split; intros (g & Hg & R); exists g; (split; [now apply Hgenes|exact R]).
+    + intros Hk x. rewrite (spec_defs_in _ _ _ Hk), M2. split; intros (g & Hg & R); exists g; (split; [now apply Hgenes|exact R]).
+  - intros a Ha Hk. apply (areas_of_in_intro _ _ (aid a)); [exact (inv_regs_all st I a Ha Hk)|].
+    exact (find_area_nodup _ _ (inv_aid st I) Ha).
+  - intros g r Hg Hr Hc. apply (inv_link_complete st I g r); [now apply Hgenes|exact Hr|exact Hc].
+  - intros g i Hg Hl. destruct (inv_link_sound st I _ _ Hl) as (g0 & r & Hg0 & E & Hr & Ei & Hc).
+    assert (g0 = g) by (apply (NoDup_map_inj gid (sgenes st) (inv_gid st I)); [exact Hg0|now apply Hgenes|exact E]).
+    subst g0. exists r. repeat split; auto.
+Qed.
+
+(* two histories over the same genes: an area present in both ends with the same members and the same
+   definition genes, whatever the two orders of insertion were *)
+Theorem build_order_irrelevant ops1 ops2 st1 st2 :
+  history_guard ops1 = true -> history_guard ops2 = true -> exec ops1 = Ok st1 -> exec ops2 = Ok st2 ->
+  (forall g, In g (ops_genes ops1) <-> In g (ops_genes ops2)) ->
+  forall a1 a2, In a1 (sareas st1) -> In a2 (sareas st2) -> static a1 = static a2 ->
+    (forall x, In x (amem a1) <-> In x (amem a2)) /\ (forall x, In x (adef a1) <-> In x (adef a2)).
+Proof.
+  intros G1 G2 H1 H2 Hsame a1 a2 Ha1 Ha2 Est.
+  destruct (exec_inv ops1 st1 (history_guard_P _ G1) H1) as (I1 & Hg1 & _).
+  destruct (exec_inv ops2 st2 (history_guard_P _ G2) H2) as (I2 & Hg2 & _).
+  destruct (inv_members st1 I1 a1 Ha1) as [M1 D1]. destruct (inv_members st2 I2 a2 Ha2) as [M2 D2].
+  assert (El : aloc a1 = aloc a2) by (unfold static in Est; now injection Est).
+  split; intros x.
+  - rewrite M1, M2. split; intros (g & Hg & R); exists g; (split; [apply Hg1 in Hg || apply Hg2 in Hg|]).
+    + apply Hg2, Hsame, Hg.
+    + now rewrite <- El.
+    + apply Hg1, Hsame, Hg.
+    + now rewrite El.
+  - rewrite D1, D2. split; intros (g & Hg & E & Hc & Hd); exists g.
+    + split; [apply Hg2, Hsame, Hg1, Hg|]. rewrite <- El, <- (defcond_static a1 a2 g Est). auto.
+    + split; [apply Hg1, Hsame, Hg2, Hg|]. rewrite El, (defcond_static a1 a2 g Est). auto.
+Qed.
